@@ -8,7 +8,13 @@
      plain values or layer lists of plain values, `Semi`) abstracts to a tree (`abs`);
      `Mapping::insert_impl`, `Mapping::merge`, `Value::merge` and the fold `flatVl` commute
      with `upsert`, `deepEs`, `deep` and `merged`.
-  4. The evaluator on a layer list of plain values settles on `deepAll` (`settle_main`).
+  4. The evaluator on a layer list of reference-free values settles on `deepAll`
+     (`settle_main`, `vl_settles`, `semi_settles`).
+  5. Only merge conflicts are ever reported.   6. Whole parameter mappings (`params_settle`).
+  7. The specification key by key (`tlookup_mergedEs`, `resolveEs_lookup`, …).
+  8. The binary reading (`deepAll_snoc`), mappings over mappings (`merged_maps`).
+  9. Conflict paths (`BadBelow`, `deepAll_error_below`).   10. `deepParams_by_key`, finished runs.
+  11. Top-level override keys (`params_settleO`, `tlookup_mergedParamsO`).
 -/
 import Reclass.Spec.DeepMerge
 import Reclass.Lemmas.TextL
@@ -88,6 +94,199 @@ theorem flat_plain {v : Value} (h : Plain v) (st : RState) : flat v st = .ok v :
   obtain ⟨a, b, c, _⟩ := plain_all v h
   exact flat_canon v st a b c
 
+/-! ### Reference-free data and `norm` -/
+
+mutual
+theorem norm_plain : ∀ (v : Value), Plain v → norm v = v
+  | .str _, h => by simp [Plain] at h
+  | .vl _, h => by simp [Plain] at h
+  | .null, _ => rfl
+  | .bool _, _ => rfl
+  | .num _, _ => rfl
+  | .lit _, _ => rfl
+  | .seq l, h => by simp only [Plain] at h; simp only [norm, normL_plain l h]
+  | .map es ck ok, h => by simp only [Plain] at h; simp only [norm, normEs_plain es h.1]
+theorem normL_plain : ∀ (l : List Value), PlainL l → normL l = l
+  | [], _ => rfl
+  | v :: vs, h => by
+    simp only [PlainL] at h; simp only [normL, norm_plain v h.1, normL_plain vs h.2]
+theorem normEs_plain : ∀ (es : List (Key × Value)), PlainEs es → normEs es = es
+  | [], _ => rfl
+  | (k, v) :: es, h => by
+    simp only [PlainEs] at h; simp only [normEs, norm_plain v h.2.1, normEs_plain es h.2.2]
+end
+
+theorem keys_normEs : ∀ (es : List (Key × Value)), keys (normEs es) = keys es
+  | [] => rfl
+  | (k, v) :: es => by
+    have := keys_normEs es
+    simp only [keys, normEs, List.map_cons] at this ⊢
+    rw [this]
+
+mutual
+theorem refFree_norm : ∀ (v : Value), RefFree v → Plain (norm v)
+  | .str _, _ => by simp [norm, Plain]
+  | .vl _, h => by simp [RefFree] at h
+  | .null, _ => by simp [norm, Plain]
+  | .bool _, _ => by simp [norm, Plain]
+  | .num _, _ => by simp [norm, Plain]
+  | .lit _, _ => by simp [norm, Plain]
+  | .seq l, h => by
+    simp only [RefFree] at h; simp only [norm, Plain]; exact refFreeL_normL l h
+  | .map es ck ok, h => by
+    simp only [RefFree] at h
+    simp only [norm, Plain, keys_normEs]
+    exact ⟨refFreeEs_normEs es h.1, h.2⟩
+theorem refFreeL_normL : ∀ (l : List Value), RefFreeL l → PlainL (normL l)
+  | [], _ => trivial
+  | v :: vs, h => by
+    simp only [RefFreeL] at h
+    exact ⟨refFree_norm v h.1, refFreeL_normL vs h.2⟩
+theorem refFreeEs_normEs : ∀ (es : List (Key × Value)), RefFreeEs es → PlainEs (normEs es)
+  | [], _ => trivial
+  | (k, v) :: es, h => by
+    simp only [RefFreeEs] at h
+    exact ⟨h.1, refFree_norm v h.2.1, refFreeEs_normEs es h.2.2⟩
+end
+
+mutual
+theorem plain_refFree : ∀ (v : Value), Plain v → RefFree v
+  | .str _, h => by simp [Plain] at h
+  | .vl _, h => by simp [Plain] at h
+  | .null, _ => trivial
+  | .bool _, _ => trivial
+  | .num _, _ => trivial
+  | .lit _, _ => trivial
+  | .seq l, h => by simp only [Plain] at h; simp only [RefFree]; exact plainL_refFreeL l h
+  | .map es ck ok, h => by
+    simp only [Plain] at h; simp only [RefFree]; exact ⟨plainEs_refFreeEs es h.1, h.2⟩
+theorem plainL_refFreeL : ∀ (l : List Value), PlainL l → RefFreeL l
+  | [], _ => trivial
+  | v :: vs, h => by
+    simp only [PlainL] at h; exact ⟨plain_refFree v h.1, plainL_refFreeL vs h.2⟩
+theorem plainEs_refFreeEs : ∀ (es : List (Key × Value)), PlainEs es → RefFreeEs es
+  | [], _ => trivial
+  | (k, v) :: es, h => by
+    simp only [PlainEs] at h; exact ⟨h.1, plain_refFree v h.2.1, plainEs_refFreeEs es h.2.2⟩
+end
+
+theorem refFreeL_append {a b : List Value} : RefFreeL (a ++ b) ↔ RefFreeL a ∧ RefFreeL b := by
+  induction a with
+  | nil => simp [RefFreeL]
+  | cons v vs ih => simp only [List.cons_append, RefFreeL, ih, and_assoc]
+
+theorem normL_append : ∀ (a b : List Value), normL (a ++ b) = normL a ++ normL b
+  | [], _ => rfl
+  | v :: a, b => by simp only [List.cons_append, normL, normL_append a b]
+
+theorem refFree_layersOf {v : Value} (h : RefFree v) : C10.layersOf v = [v] := by
+  cases v <;> first | rfl | simp [RefFree] at h
+
+mutual
+theorem sz_norm : ∀ (v : Value), sz (norm v) = sz v
+  | .str _ => rfl
+  | .vl l => by simp only [norm, sz, szVl_normL l]
+  | .null => rfl
+  | .bool _ => rfl
+  | .num _ => rfl
+  | .lit _ => rfl
+  | .seq l => by simp only [norm, sz, szL_normL l]
+  | .map es ck ok => by simp only [norm, sz, szEs_normEs es]
+theorem szL_normL : ∀ (l : List Value), szL (normL l) = szL l
+  | [] => rfl
+  | v :: vs => by simp only [normL, szL, sz_norm v, szL_normL vs]
+theorem szVl_normL : ∀ (l : List Value), szVl (normL l) = szVl l
+  | [] => rfl
+  | v :: vs => by simp only [normL, szVl, sz_norm v, szVl_normL vs]
+theorem szEs_normEs : ∀ (es : List (Key × Value)), szEs (normEs es) = szEs es
+  | [] => rfl
+  | (k, v) :: es => by simp only [normEs, szEs, sz_norm v, szEs_normEs es]
+end
+
+theorem insertImpl_fresh_plain (acc : List (Key × Value)) {k : Key} (v : Value)
+    (hk : CleanKey k) (hn : k ∉ keys acc) :
+    (⟨acc, [], []⟩ : Mapping).insertImpl k v (decide (k ∈ ([] : List Key)))
+      (decide (k ∈ ([] : List Key))) = .ok ⟨acc ++ [(k, v)], [], []⟩ := by
+  rw [insertImpl_fresh_eq ⟨acc, [], []⟩ v _ _ hk hn]
+  simp
+
+mutual
+/-- **Interpolating reference-free data only turns its strings into literals.** -/
+theorem interp_refFree : ∀ (v : Value) (n : Nat) (root : Mapping) (st : RState), RefFree v →
+    size v ≤ n → interp n root v st = .ok (norm v, st)
+  | .vl l, n, root, st, h, _ => by simp [RefFree] at h
+  | .str s, n, root, st, h, hn => by
+    cases n with
+    | zero => simp [size] at hn
+    | succ n =>
+      simp only [RefFree] at h
+      simp [interp, Token.parse, h, norm]
+  | .null, n, root, st, _, hn => by
+    cases n with
+    | zero => simp [size] at hn
+    | succ n => simp only [interp, norm]
+  | .bool _, n, root, st, _, hn => by
+    cases n with
+    | zero => simp [size] at hn
+    | succ n => simp only [interp, norm]
+  | .num _, n, root, st, _, hn => by
+    cases n with
+    | zero => simp [size] at hn
+    | succ n => simp only [interp, norm]
+  | .lit _, n, root, st, _, hn => by
+    cases n with
+    | zero => simp [size] at hn
+    | succ n => simp only [interp, norm]
+  | .seq l, n, root, st, h, hn => by
+    cases n with
+    | zero => simp [size] at hn
+    | succ n =>
+      simp only [RefFree] at h
+      simp only [size] at hn
+      simp only [interp, interpL_refFree l n root 0 st h (by omega), norm]
+  | .map es ck ok, n, root, st, h, hn => by
+    cases n with
+    | zero => simp [size] at hn
+    | succ n =>
+      simp only [RefFree] at h
+      obtain ⟨h1, h2, rfl, rfl⟩ := h
+      simp only [size] at hn
+      have := interpEs_refFree es n root st [] h1 (by simpa using h2) (by omega)
+      simp only [interp, this, Mapping.toValue, List.nil_append, norm]
+theorem interpL_refFree : ∀ (l : List Value) (n : Nat) (root : Mapping) (idx : Nat) (st : RState),
+    RefFreeL l → sizeL l ≤ n → interpL n root l idx st = .ok (normL l)
+  | [], n, root, idx, st, _, hn => by
+    cases n with
+    | zero => simp [sizeL] at hn
+    | succ n => simp only [interpL, normL]
+  | v :: vs, n, root, idx, st, h, hn => by
+    cases n with
+    | zero => simp [sizeL] at hn
+    | succ n =>
+      simp only [RefFreeL] at h
+      simp only [sizeL] at hn
+      simp only [interpL, interp_refFree v n root _ h.1 (by omega),
+        interpL_refFree vs n root (idx + 1) st h.2 (by omega), normL]
+theorem interpEs_refFree : ∀ (es : List (Key × Value)) (n : Nat) (root : Mapping) (st : RState)
+    (acc : List (Key × Value)), RefFreeEs es → (keys acc ++ keys es).Nodup → sizeEs es ≤ n →
+    interpEs n root es [] [] st ⟨acc, [], []⟩ = .ok ⟨acc ++ normEs es, [], []⟩
+  | [], n, root, st, acc, _, _, hn => by
+    cases n with
+    | zero => simp [sizeEs] at hn
+    | succ n => simp [interpEs, normEs]
+  | (k, v) :: rest, n, root, st, acc, h, hnd, hn => by
+    cases n with
+    | zero => simp [sizeEs] at hn
+    | succ n =>
+      simp only [RefFreeEs] at h
+      simp only [sizeEs] at hn
+      have hstep := nodup_keys_step (by simpa [keys] using hnd : (keys acc ++ k :: keys rest).Nodup)
+      simp only [interpEs, interp_refFree v n root _ h.2.1 (by omega),
+        flat_plain (refFree_norm v h.2.1), insertImpl_fresh_plain acc (norm v) h.1 hstep.1]
+      rw [interpEs_refFree rest n root st _ h.2.2 (by simpa [keys] using hstep.2) (by omega)]
+      simp [normEs]
+end
+
 /-! ## 2. Parameter trees -/
 
 /-- The keys of a node, in order. -/
@@ -98,12 +297,18 @@ mutual
 are marker-free and distinct. -/
 def PTree : Tree → Prop
   | .leaf v => Plain v ∧ v.isMap = false
-  | .bad _ => True
+  | .bad e => IsConflict e
   | .node ts => PTreeEs ts ∧ (tkeys ts).Nodup
 def PTreeEs : List (Key × Tree) → Prop
   | [] => True
   | (k, t) :: ts => CleanKey k ∧ PTree t ∧ PTreeEs ts
 end
+
+@[simp] theorem isConflict_conflict (cur : List Str) (v : Value) (onto : Str) :
+    IsConflict (conflict cur v onto) := ⟨_, _, _, rfl⟩
+
+theorem IsConflict.ne_fuel {e : Err} (h : IsConflict e) : e ≠ .fuel := by
+  obtain ⟨_, _, _, rfl⟩ := h; simp
 
 theorem tlookup_none_iff {k : Key} {ts : List (Key × Tree)} : tlookup k ts = none ↔ k ∉ tkeys ts := by
   induction ts with
@@ -203,10 +408,18 @@ theorem mergeLeaf_ptree (cur : List Str) {a v : Value} (ha : Plain a) (hv : Plai
   cases a with
   | null => exact ofValue_ptree v hv
   | seq l =>
-    cases v <;> simp only [mergeLeaf, PTree]
-    rename_i l'
-    simp only [Plain] at ha hv ⊢
-    exact ⟨plainL_append.2 ⟨ha, hv⟩, rfl⟩
+    cases v with
+    | seq l' =>
+      simp only [mergeLeaf, PTree]
+      simp only [Plain] at ha hv ⊢
+      exact ⟨plainL_append.2 ⟨ha, hv⟩, rfl⟩
+    | null => simp [mergeLeaf, PTree]
+    | bool _ => simp [mergeLeaf, PTree]
+    | num _ => simp [mergeLeaf, PTree]
+    | lit _ => simp [mergeLeaf, PTree]
+    | str _ => simp [mergeLeaf, PTree]
+    | vl _ => simp [mergeLeaf, PTree]
+    | map _ _ _ => simp [mergeLeaf, PTree]
   | str _ => simp [Plain] at ha
   | vl _ => simp [Plain] at ha
   | bool _ =>
@@ -243,31 +456,31 @@ theorem deep_ptree : ∀ (v : Value) (cur : List Str) (t : Tree), PTree t → Pl
     PTree (deep cur t v)
   | .str _, _, _, _, h => by simp [Plain] at h
   | .vl _, _, _, _, h => by simp [Plain] at h
-  | .null, cur, t, _, _ => by
-    cases t <;> simp [deep, PTree, Plain, Value.isMap]
+  | .null, cur, t, ht, _ => by
+    cases t <;> simp_all [deep, PTree, Plain, Value.isMap]
   | .bool b, cur, t, ht, hv => by
     cases t with
-    | bad e => simp [deep, PTree]
+    | bad e => simpa [deep, PTree] using ht
     | node ts => simp [deep, PTree]
     | leaf a => simp only [deep]; exact mergeLeaf_ptree cur ht.1 hv
   | .num b, cur, t, ht, hv => by
     cases t with
-    | bad e => simp [deep, PTree]
+    | bad e => simpa [deep, PTree] using ht
     | node ts => simp [deep, PTree]
     | leaf a => simp only [deep]; exact mergeLeaf_ptree cur ht.1 hv
   | .lit b, cur, t, ht, hv => by
     cases t with
-    | bad e => simp [deep, PTree]
+    | bad e => simpa [deep, PTree] using ht
     | node ts => simp [deep, PTree]
     | leaf a => simp only [deep]; exact mergeLeaf_ptree cur ht.1 hv
   | .seq b, cur, t, ht, hv => by
     cases t with
-    | bad e => simp [deep, PTree]
+    | bad e => simpa [deep, PTree] using ht
     | node ts => simp [deep, PTree]
     | leaf a => simp only [deep]; exact mergeLeaf_ptree cur ht.1 hv
   | .map es ck ok, cur, t, ht, hv => by
     cases t with
-    | bad e => simp [deep, PTree]
+    | bad e => simpa [deep, PTree] using ht
     | leaf a => simp only [deep]; exact mergeLeaf_ptree cur ht.1 hv
     | node ts =>
       simp only [PTree] at ht
@@ -388,6 +601,1660 @@ theorem ofValueEs_resolveEs : ∀ (ts : List (Key × Tree)) (es : List (Key × V
         simp only [h2, Except.ok.injEq] at h; subst h
         simp only [ofValueEs, ofValue_resolve t v ht.2.1 h1, ofValueEs_resolveEs ts es' ht.2.2 h2]
 end
+
+/-! ## 3. The evaluator's accumulator as a tree -/
+
+/-- A member of an accumulated mapping: a reference-free value (written once) or the layer list
+of the reference-free values written to it. -/
+def SemiV (v : Value) : Prop := RefFree v ∨ ∃ l, v = .vl l ∧ RefFreeL l
+
+def SemiEs : List (Key × Value) → Prop
+  | [] => True
+  | (k, v) :: es => CleanKey k ∧ SemiV v ∧ SemiEs es
+
+/-- What the layer loop holds after some plain layers: a plain non-mapping value, or a flag-free
+mapping with clean distinct keys whose members are `SemiV`. -/
+def Semi : Value → Prop
+  | .map es ck ok => SemiEs es ∧ (keys es).Nodup ∧ ck = [] ∧ ok = []
+  | v => Plain v
+
+/-- The tree of a member: its (interpolated) layers merged at path `cur`. -/
+def stackTree (cur : List Str) (v : Value) : Tree := merged cur (normL (C10.layersOf v))
+
+def absEs (cur : List Str) : List (Key × Value) → List (Key × Tree)
+  | [] => []
+  | (k, v) :: es => (k, stackTree (cur ++ [k.display]) v) :: absEs cur es
+
+/-- The abstraction function: accumulator ↦ tree. -/
+def abs (cur : List Str) : Value → Tree
+  | .map es _ _ => .node (absEs cur es)
+  | v => .leaf v
+
+theorem semiV_of_plain {v : Value} (h : Plain v) : SemiV v := Or.inl (plain_refFree v h)
+
+theorem semiV_layers {v : Value} (h : SemiV v) : RefFreeL (C10.layersOf v) := by
+  rcases h with h | ⟨l, rfl, h⟩
+  · rw [refFree_layersOf h]; exact ⟨h, trivial⟩
+  · exact h
+
+theorem plainEs_semiEs : ∀ {es : List (Key × Value)}, PlainEs es → SemiEs es
+  | [], _ => trivial
+  | (k, v) :: es, h => by
+    simp only [PlainEs] at h
+    exact ⟨h.1, semiV_of_plain h.2.1, plainEs_semiEs h.2.2⟩
+
+theorem plain_semi {v : Value} (h : Plain v) : Semi v := by
+  cases v with
+  | map es ck ok =>
+    simp only [Plain] at h
+    exact ⟨plainEs_semiEs h.1, h.2⟩
+  | null => exact h
+  | bool _ => exact h
+  | num _ => exact h
+  | lit _ => exact h
+  | seq _ => exact h
+  | str _ => exact h
+  | vl _ => exact h
+
+theorem semiEs_append {a b : List (Key × Value)} : SemiEs (a ++ b) ↔ SemiEs a ∧ SemiEs b := by
+  induction a with
+  | nil => simp [SemiEs]
+  | cons e es ih =>
+    obtain ⟨k, v⟩ := e
+    simp only [List.cons_append, SemiEs, ih, and_assoc]
+
+theorem semiEs_lookup {es : List (Key × Value)} {k : Key} {v : Value} (h : SemiEs es)
+    (hl : lookup k es = some v) : SemiV v := by
+  induction es with
+  | nil => simp at hl
+  | cons e es ih =>
+    obtain ⟨k', v'⟩ := e
+    simp only [SemiEs] at h
+    simp only [lookup] at hl
+    by_cases hk : k' = k
+    · simp only [hk, if_true, Option.some.injEq] at hl; subst hl; exact h.2.1
+    · simp only [hk, if_false] at hl; exact ih h.2.2 hl
+
+theorem semiEs_mem {es : List (Key × Value)} {k : Key} {v : Value} (h : SemiEs es)
+    (hm : (k, v) ∈ es) : CleanKey k ∧ SemiV v := by
+  induction es with
+  | nil => simp at hm
+  | cons e es ih =>
+    obtain ⟨k', v'⟩ := e
+    simp only [SemiEs] at h
+    rcases List.mem_cons.1 hm with heq | hm'
+    · simp only [Prod.mk.injEq] at heq; obtain ⟨rfl, rfl⟩ := heq; exact ⟨h.1, h.2.1⟩
+    · exact ih h.2.2 hm'
+
+theorem semiEs_replaceVal {es : List (Key × Value)} {k : Key} {v : Value} (h : SemiEs es)
+    (hv : SemiV v) : SemiEs (replaceVal k v es) := by
+  induction es with
+  | nil => trivial
+  | cons e es ih =>
+    obtain ⟨k', v'⟩ := e
+    simp only [SemiEs] at h
+    simp only [replaceVal]
+    by_cases hk : k' = k
+    · simp only [hk, if_true, SemiEs]; exact ⟨hk ▸ h.1, hv, h.2.2⟩
+    · simp only [hk, if_false, SemiEs]; exact ⟨h.1, h.2.1, ih h.2.2⟩
+
+theorem semiV_combine {old v : Value} (ho : SemiV old) (hv : RefFree v) :
+    SemiV (combine old v) := by
+  rw [C10.combine_is_vl]
+  exact Or.inr ⟨_, rfl, refFreeL_append.2 ⟨semiV_layers ho, semiV_layers (Or.inl hv)⟩⟩
+
+theorem stackTree_ptree (cur : List Str) {v : Value} (h : SemiV v) : PTree (stackTree cur v) :=
+  merged_ptree cur _ _ ⟨trivial, rfl⟩ (refFreeL_normL _ (semiV_layers h))
+
+theorem stackTree_refFree (cur : List Str) {v : Value} (h : RefFree v) :
+    stackTree cur v = ofValue (norm v) := by
+  simp only [stackTree, merged, refFree_layersOf h, normL, List.foldl_cons, List.foldl_nil,
+    deep_leaf_null]
+
+theorem stackTree_plain (cur : List Str) {v : Value} (h : Plain v) : stackTree cur v = ofValue v := by
+  rw [stackTree_refFree cur (plain_refFree v h), norm_plain v h]
+
+theorem stackTree_vl (cur : List Str) (l : List Value) :
+    stackTree cur (.vl l) = merged cur (normL l) := rfl
+
+theorem stackTree_combine (cur : List Str) {old v : Value} (hv : RefFree v) :
+    stackTree cur (combine old v) = deep cur (stackTree cur old) (norm v) := by
+  simp only [stackTree, merged, C10.combine_layers, refFree_layersOf hv, normL_append, normL,
+    List.foldl_append, List.foldl_cons, List.foldl_nil]
+
+theorem tkeys_absEs (cur : List Str) (es : List (Key × Value)) : tkeys (absEs cur es) = keys es := by
+  induction es with
+  | nil => rfl
+  | cons e es ih =>
+    obtain ⟨k, v⟩ := e
+    simp only [absEs, tkeys, keys, List.map_cons] at ih ⊢
+    rw [ih]
+
+theorem absEs_append (cur : List Str) (a b : List (Key × Value)) :
+    absEs cur (a ++ b) = absEs cur a ++ absEs cur b := by
+  induction a with
+  | nil => rfl
+  | cons e es ih =>
+    obtain ⟨k, v⟩ := e
+    simp only [List.cons_append, absEs, ih]
+
+theorem absEs_plain (cur : List Str) : ∀ {es : List (Key × Value)}, PlainEs es →
+    absEs cur es = ofValueEs es
+  | [], _ => rfl
+  | (k, v) :: es, h => by
+    simp only [PlainEs] at h
+    simp only [absEs, ofValueEs, stackTree_plain _ h.2.1, absEs_plain cur h.2.2]
+
+theorem abs_plain (cur : List Str) {v : Value} (h : Plain v) : abs cur v = ofValue v := by
+  cases v with
+  | map es ck ok =>
+    simp only [Plain] at h
+    simp only [abs, ofValue, absEs_plain cur h.1]
+  | null => rfl
+  | bool _ => rfl
+  | num _ => rfl
+  | lit _ => rfl
+  | seq _ => rfl
+  | str _ => rfl
+  | vl _ => rfl
+
+theorem upsert_absEs_absent (cur : List Str) {k : Key} (f : Tree → Tree) (d : Tree)
+    {es : List (Key × Value)} (h : lookup k es = none) :
+    upsert k f d (absEs cur es) = absEs cur es ++ [(k, d)] := by
+  induction es with
+  | nil => rfl
+  | cons e es ih =>
+    obtain ⟨k', v'⟩ := e
+    simp only [lookup] at h
+    by_cases hk : k' = k
+    · simp [hk] at h
+    · simp only [hk, if_false] at h
+      simp only [absEs, upsert, hk, if_false, ih h, List.cons_append]
+
+theorem upsert_absEs_present (cur : List Str) {k : Key} (f : Tree → Tree) (d : Tree)
+    {es : List (Key × Value)} {old new : Value} (h : lookup k es = some old)
+    (hf : f (stackTree (cur ++ [k.display]) old) = stackTree (cur ++ [k.display]) new) :
+    upsert k f d (absEs cur es) = absEs cur (replaceVal k new es) := by
+  induction es with
+  | nil => simp at h
+  | cons e es ih =>
+    obtain ⟨k', v'⟩ := e
+    simp only [lookup] at h
+    by_cases hk : k' = k
+    · simp only [hk, if_true, Option.some.injEq] at h
+      subst h; subst hk
+      simp only [absEs, upsert, replaceVal, if_true, hf]
+    · simp only [hk, if_false] at h
+      simp only [absEs, upsert, replaceVal, hk, if_false, ih h]
+
+/-- `Mapping::insert_impl` of a reference-free value under a clean key, without flags, is
+`upsert` (with the interpolated value). -/
+theorem insert_sim (cur : List Str) {es : List (Key × Value)} {k : Key} {v : Value}
+    (hk : CleanKey k) (hes : SemiEs es) (hv : RefFree v) :
+    ∃ es', (⟨es, [], []⟩ : Mapping).insertImpl k v false false = .ok ⟨es', [], []⟩ ∧ SemiEs es' ∧
+      absEs cur es' =
+        upsert k (fun t => deep (cur ++ [k.display]) t (norm v)) (ofValue (norm v))
+          (absEs cur es) := by
+  have h1 : k.stripPrefix.1 = k := by rw [show k.stripPrefix = (k, none) from hk]
+  have h2 : k.stripPrefix.2 = none := by rw [show k.stripPrefix = (k, none) from hk]
+  cases hl : lookup k es with
+  | none =>
+    refine ⟨es ++ [(k, v)], ?_, ?_, ?_⟩
+    · rw [insertImpl_absent v false false (by rw [h1]; exact hl)]
+      simp [h1, h2]
+    · exact semiEs_append.2 ⟨hes, hk, Or.inl hv, trivial⟩
+    · rw [upsert_absEs_absent cur _ _ hl, absEs_append]
+      simp only [absEs, stackTree_refFree _ hv]
+  | some old =>
+    refine ⟨replaceVal k (combine old v) es, ?_, ?_, ?_⟩
+    · rw [insertImpl_present v false false (by rw [h1]; exact hl) (by simp)]
+      simp [h1, h2]
+    · exact semiEs_replaceVal hes (semiV_combine (semiEs_lookup hes hl) hv)
+    · exact (upsert_absEs_present cur _ _ hl (stackTree_combine _ hv).symm).symm
+
+/-- The entry loop of `Mapping::merge` for a reference-free flag-free layer is `deepEs`. -/
+theorem mergeEntries_sim (cur : List Str) : ∀ (es' es : List (Key × Value)), RefFreeEs es' →
+    SemiEs es →
+    ∃ es'', (⟨es, [], []⟩ : Mapping).mergeEntries [] [] es' = .ok ⟨es'', [], []⟩ ∧ SemiEs es'' ∧
+      absEs cur es'' = deepEs cur (absEs cur es) (normEs es')
+  | [], es, _, hes => ⟨es, rfl, hes, rfl⟩
+  | (k, v) :: rest, es, h, hes => by
+    simp only [RefFreeEs] at h
+    obtain ⟨es1, a1, b1, c1⟩ := insert_sim cur h.1 hes h.2.1
+    obtain ⟨es2, a2, b2, c2⟩ := mergeEntries_sim cur rest es1 h.2.2 b1
+    refine ⟨es2, ?_, b2, ?_⟩
+    · rw [mergeEntries_cons]
+      simp only [List.not_mem_nil, decide_false, a1, a2]
+    · rw [c2, c1]; rfl
+
+theorem conflict_eq (st : RState) (v : Value) (onto : Str) :
+    Err.mergeConflict st.curKey v.kind onto = conflict st.cur v onto := rfl
+
+/-- **`Value::merge` is `deep`.**  For an accumulator `R` of the layer loop and a plain layer
+`x`: a successful merge is again an accumulator and abstracts to `deep (abs R) x`; a failed
+merge means that `deep` poisons the parameter with that very error. -/
+theorem mergeV_sim {R x : Value} (st : RState) (hR : Semi R) (hx : Plain x) :
+    (∀ R', mergeV R x st = .ok R' → Semi R' ∧ deep st.cur (abs st.cur R) x = abs st.cur R') ∧
+    (∀ e, mergeV R x st = .error e → deep st.cur (abs st.cur R) x = .bad e) := by
+  cases x with
+  | str _ => simp [Plain] at hx
+  | vl _ => simp [Plain] at hx
+  | null =>
+    constructor
+    · intro R' h
+      simp only [mergeV, Except.ok.injEq] at h; subst h
+      refine ⟨trivial, ?_⟩
+      cases R <;> rfl
+    · intro e h; simp [mergeV] at h
+  | bool b =>
+    cases R with
+    | str _ => simp [Semi, Plain] at hR
+    | vl _ => simp [Semi, Plain] at hR
+    | null => simp [mergeV, mergeNonVl, Semi, Plain, abs, deep, mergeLeaf, ofValue]
+    | bool _ => simp [mergeV, mergeNonVl, Semi, Plain, abs, deep, mergeLeaf, Value.isMap, Value.isSeq]
+    | num _ => simp [mergeV, mergeNonVl, Semi, Plain, abs, deep, mergeLeaf, Value.isMap, Value.isSeq]
+    | lit _ => simp [mergeV, mergeNonVl, Semi, Plain, abs, deep, mergeLeaf, Value.isMap, Value.isSeq]
+    | seq _ => simp [mergeV, mergeNonVl, abs, deep, mergeLeaf, conflict_eq]
+    | map _ _ _ => simp [mergeV, mergeNonVl, abs, deep, conflict_eq]
+  | num b =>
+    cases R with
+    | str _ => simp [Semi, Plain] at hR
+    | vl _ => simp [Semi, Plain] at hR
+    | null => simp [mergeV, mergeNonVl, Semi, Plain, abs, deep, mergeLeaf, ofValue]
+    | bool _ => simp [mergeV, mergeNonVl, Semi, Plain, abs, deep, mergeLeaf, Value.isMap, Value.isSeq]
+    | num _ => simp [mergeV, mergeNonVl, Semi, Plain, abs, deep, mergeLeaf, Value.isMap, Value.isSeq]
+    | lit _ => simp [mergeV, mergeNonVl, Semi, Plain, abs, deep, mergeLeaf, Value.isMap, Value.isSeq]
+    | seq _ => simp [mergeV, mergeNonVl, abs, deep, mergeLeaf, conflict_eq]
+    | map _ _ _ => simp [mergeV, mergeNonVl, abs, deep, conflict_eq]
+  | lit b =>
+    cases R with
+    | str _ => simp [Semi, Plain] at hR
+    | vl _ => simp [Semi, Plain] at hR
+    | null => simp [mergeV, mergeNonVl, Semi, Plain, abs, deep, mergeLeaf, ofValue]
+    | bool _ => simp [mergeV, mergeNonVl, Semi, Plain, abs, deep, mergeLeaf, Value.isMap, Value.isSeq]
+    | num _ => simp [mergeV, mergeNonVl, Semi, Plain, abs, deep, mergeLeaf, Value.isMap, Value.isSeq]
+    | lit _ => simp [mergeV, mergeNonVl, Semi, Plain, abs, deep, mergeLeaf, Value.isMap, Value.isSeq]
+    | seq _ => simp [mergeV, mergeNonVl, abs, deep, mergeLeaf, conflict_eq]
+    | map _ _ _ => simp [mergeV, mergeNonVl, abs, deep, conflict_eq]
+  | seq l' =>
+    cases R with
+    | str _ => simp [Semi, Plain] at hR
+    | vl _ => simp [Semi, Plain] at hR
+    | null =>
+      simp only [mergeV, mergeNonVl, abs, deep, mergeLeaf, ofValue]
+      simp [Semi]; exact hx
+    | bool _ => simp [mergeV, mergeNonVl, abs, deep, mergeLeaf, Value.isMap, Value.isSeq, conflict_eq]
+    | num _ => simp [mergeV, mergeNonVl, abs, deep, mergeLeaf, Value.isMap, Value.isSeq, conflict_eq]
+    | lit _ => simp [mergeV, mergeNonVl, abs, deep, mergeLeaf, Value.isMap, Value.isSeq, conflict_eq]
+    | seq l =>
+      simp only [mergeV, mergeNonVl, abs, deep, mergeLeaf]
+      simp only [Semi, Plain] at hR hx
+      simp [Semi, Plain, plainL_append, hR, hx]
+    | map _ _ _ => simp [mergeV, mergeNonVl, abs, deep, conflict_eq]
+  | map es' ck' ok' =>
+    have hx' := hx
+    simp only [Plain] at hx'
+    obtain ⟨hes', hnd', rfl, rfl⟩ := hx'
+    cases R with
+    | str _ => simp [Semi, Plain] at hR
+    | vl _ => simp [Semi, Plain] at hR
+    | null =>
+      constructor
+      · intro R' h
+        simp only [mergeV, mergeNonVl, Except.ok.injEq] at h; subst h
+        exact ⟨plain_semi hx, by rw [abs_plain _ hx]; rfl⟩
+      · intro e h; simp [mergeV, mergeNonVl] at h
+    | bool _ => simp [mergeV, mergeNonVl, abs, deep, mergeLeaf, Value.isMap, Value.isSeq, conflict_eq]
+    | num _ => simp [mergeV, mergeNonVl, abs, deep, mergeLeaf, Value.isMap, Value.isSeq, conflict_eq]
+    | lit _ => simp [mergeV, mergeNonVl, abs, deep, mergeLeaf, Value.isMap, Value.isSeq, conflict_eq]
+    | seq _ => simp [mergeV, mergeNonVl, abs, deep, mergeLeaf, conflict_eq]
+    | map es ck ok =>
+      simp only [Semi] at hR
+      obtain ⟨hes, hnd, rfl, rfl⟩ := hR
+      obtain ⟨es2, a, b, c⟩ := mergeEntries_sim st.cur es' es (plainEs_refFreeEs es' hes') hes
+      rw [normEs_plain es' hes'] at c
+      have hm : Mapping.merge ⟨es, [], []⟩ ⟨es', [], []⟩ = .ok ⟨es2, [], []⟩ := a
+      have hnd2 : (keys es2).Nodup := merge_keys_nodup (m := ⟨es, [], []⟩) hnd hm
+      constructor
+      · intro R' h
+        simp only [mergeV, mergeNonVl, hm, Except.ok.injEq] at h; subst h
+        refine ⟨⟨b, hnd2, rfl, rfl⟩, ?_⟩
+        simp only [abs, deep, Mapping.toValue, c]
+      · intro e h
+        simp [mergeV, mergeNonVl, hm] at h
+
+/-- **The fold of `Value::merge` over plain layers is `merged`.** -/
+theorem flatVl_sim (st : RState) : ∀ (l : List Value) (R : Value), Semi R → PlainL l →
+    (∀ R', flatVl l R st = .ok R' →
+      Semi R' ∧ l.foldl (deep st.cur) (abs st.cur R) = abs st.cur R') ∧
+    (∀ e, flatVl l R st = .error e → l.foldl (deep st.cur) (abs st.cur R) = .bad e)
+  | [], R, hR, _ =>
+    ⟨fun R' h => by simp only [flatVl, Except.ok.injEq] at h; subst h; exact ⟨hR, rfl⟩,
+     fun e h => by simp [flatVl] at h⟩
+  | v :: rest, R, hR, hl => by
+    simp only [PlainL] at hl
+    obtain ⟨s1, s2⟩ := mergeV_sim st hR hl.1
+    cases h1 : mergeV R v st with
+    | error e =>
+      constructor
+      · intro R' h; simp [flatVl, h1] at h
+      · intro e' h
+        simp only [flatVl, h1, Except.error.injEq] at h; subst h
+        simp only [List.foldl_cons, s2 e h1, foldl_deep_bad]
+    | ok b =>
+      obtain ⟨hb, hd⟩ := s1 b h1
+      obtain ⟨r1, r2⟩ := flatVl_sim st rest b hb hl.2
+      constructor
+      · intro R' h
+        simp only [flatVl, h1] at h
+        simp only [List.foldl_cons, hd]; exact r1 R' h
+      · intro e h
+        simp only [flatVl, h1] at h
+        simp only [List.foldl_cons, hd]; exact r2 e h
+
+/-! ## 4. The evaluator settles on the specification -/
+
+/-- The first loop of the `ValueList` arm on reference-free layers is the plain fold of
+`Value::merge` over the interpolated layers. -/
+theorem interpVl_refFree (root : Mapping) (st : RState) : ∀ (l : List Value) (n : Nat) (r : Value),
+    RefFreeL l → sizeL l ≤ n → interpVl n root l r st = flatVl (normL l) r st
+  | [], n, r, _, hn => by
+    cases n with
+    | zero => simp [sizeL] at hn
+    | succ n => rfl
+  | v :: vs, n, r, hl, hn => by
+    cases n with
+    | zero => simp [sizeL] at hn
+    | succ n =>
+      simp only [RefFreeL] at hl
+      simp only [sizeL] at hn
+      rw [interpVl_cons, interp_refFree v n root st hl.1 (by omega)]
+      simp only [normL, flatVl]
+      cases mergeV r (norm v) st with
+      | error e => rfl
+      | ok r' => exact interpVl_refFree root st vs n r' hl.2 (by omega)
+
+/-- For all sufficiently large fuel the computation `f` returns `r`. -/
+def Settles {α : Type} (f : Nat → R α) (r : R α) : Prop := ∃ N, ∀ n, N ≤ n → f n = r
+
+/-- A specification outcome as an outcome of `interp` that leaves the state alone. -/
+def lift (st : RState) : Except Err Value → R (Value × RState)
+  | .ok v => .ok (v, st)
+  | .error e => .error e
+
+theorem lift_ne_fuel_of {st : RState} {x : Except Err Value} (h : x ≠ .error .fuel) :
+    lift st x ≠ .error .fuel := by
+  cases x with
+  | ok v => simp [lift]
+  | error e => simpa [lift] using h
+
+/-- `Mapping::interpolate` on an accumulated mapping, given that every member settles on the
+value of its tree. -/
+theorem interpEs_settle (root : Mapping) (st : RState) : ∀ (es acc : List (Key × Value)),
+    SemiEs es → (keys acc ++ keys es).Nodup →
+    (∀ k v, (k, v) ∈ es → Settles (fun n => interp n root v (st.pushMappingKey k))
+        (lift (st.pushMappingKey k) (resolve (stackTree (st.cur ++ [k.display]) v)))) →
+    Settles (fun n => interpEs n root es [] [] st ⟨acc, [], []⟩)
+      (match resolveEs (absEs st.cur es) with
+       | .error e => .error e
+       | .ok es' => .ok ⟨acc ++ es', [], []⟩)
+  | [], acc, _, _, _ => ⟨1, fun n hn => by
+      obtain ⟨m, rfl⟩ : ∃ m, n = m + 1 := ⟨n - 1, by omega⟩
+      simp [interpEs_nil, absEs, resolveEs]⟩
+  | (k, v) :: rest, acc, hes, hnd, hv => by
+    simp only [SemiEs] at hes
+    obtain ⟨N1, c1⟩ := hv k v (by simp)
+    dsimp only at c1
+    have hstep := nodup_keys_step (by simpa [keys] using hnd : (keys acc ++ k :: keys rest).Nodup)
+    have hpt := stackTree_ptree (st.cur ++ [k.display]) hes.2.1
+    cases hr : resolve (stackTree (st.cur ++ [k.display]) v) with
+    | error e =>
+      refine ⟨N1 + 1, fun n hn => ?_⟩
+      obtain ⟨m, rfl⟩ : ∃ m, n = m + 1 := ⟨n - 1, by omega⟩
+      dsimp only
+      rw [interpEs_cons, c1 m (by omega), hr]
+      simp only [lift, absEs, resolveEs, hr]
+    | ok w =>
+      have hw : Plain w := resolve_plain _ _ hpt hr
+      obtain ⟨N2, c2⟩ := interpEs_settle root st rest (acc ++ [(k, w)]) hes.2.2
+        (by simpa [keys] using hstep.2)
+        (fun k' v' hm => hv k' v' (List.mem_cons_of_mem _ hm))
+      dsimp only at c2
+      refine ⟨N1 + N2 + 1, fun n hn => ?_⟩
+      obtain ⟨m, rfl⟩ : ∃ m, n = m + 1 := ⟨n - 1, by omega⟩
+      dsimp only
+      rw [interpEs_cons, c1 m (by omega), hr]
+      simp only [lift, flat_plain hw]
+      rw [insertImpl_fresh_eq ⟨acc, [], []⟩ w _ _ hes.1 hstep.1]
+      simp only [List.not_mem_nil, decide_false, Bool.false_eq_true, if_false]
+      rw [c2 m (by omega)]
+      simp only [absEs, resolveEs, hr]
+      cases resolveEs (absEs st.cur rest) <;> simp
+
+theorem settle_refFree (root : Mapping) {v : Value} (h : RefFree v) (st : RState) (cur : List Str) :
+    Settles (fun n => interp n root v st) (lift st (resolve (stackTree cur v))) := by
+  refine ⟨size v, fun n hn => ?_⟩
+  rw [stackTree_refFree _ h, resolve_ofValue _ (refFree_norm v h)]
+  exact interp_refFree v n root st h hn
+
+theorem abs_null (cur : List Str) : abs cur .null = .leaf .null := rfl
+
+/-- **Main lemma.**  By induction on the size bound `b`:
+(1) a layer list of reference-free values renders to `deepAll` of its (interpolated) layers;
+(2) an accumulator of the layer loop renders to the value of its tree. -/
+theorem settle_main (root : Mapping) : ∀ (b : Nat),
+    (∀ l, RefFreeL l → sz (.vl l) ≤ b → ∀ st,
+      Settles (fun n => interp n root (.vl l) st) (lift st (deepAll st.cur (normL l)))) ∧
+    (∀ R, Semi R → sz R ≤ b → ∀ st,
+      Settles (fun n => interp n root R st) (lift st (resolve (abs st.cur R)))) := by
+  intro b
+  induction b with
+  | zero =>
+    constructor
+    · intro l _ hb; simp [sz] at hb
+    · intro R _ hb; have := Termination.sz_pos R; omega
+  | succ b ih =>
+    obtain ⟨ih1, ih2⟩ := ih
+    constructor
+    · intro l hl hb st
+      have hpl : PlainL (normL l) := refFreeL_normL l hl
+      obtain ⟨f1, f2⟩ := flatVl_sim st (normL l) .null (by trivial) hpl
+      rw [abs_null] at f1 f2
+      cases hf : flatVl (normL l) .null st with
+      | error e =>
+        have hm : merged st.cur (normL l) = .bad e := f2 e hf
+        refine ⟨sizeL l + 1, fun n hn => ?_⟩
+        obtain ⟨m, rfl⟩ : ∃ m, n = m + 1 := ⟨n - 1, by omega⟩
+        dsimp only
+        rw [interp_vl, interpVl_refFree root st l m .null hl (by omega), hf]
+        simp only [deepAll, hm, resolve, lift]
+      | ok R =>
+        obtain ⟨hR, hm⟩ := f1 R hf
+        have hm : merged st.cur (normL l) = abs st.cur R := hm
+        have hsz := (Termination.flatVl_good (normL l) .null st R hf (plainL_all _ hpl).2.2.2
+          (by simp [StrFree])).2
+        have hlen := Termination.szVl_eq l
+        rw [szL_normL] at hsz
+        simp only [sz] at hb hsz
+        obtain ⟨N2, c2⟩ := ih2 R hR (by omega) st
+        dsimp only at c2
+        refine ⟨sizeL l + N2 + 1, fun n hn => ?_⟩
+        obtain ⟨m, rfl⟩ : ∃ m, n = m + 1 := ⟨n - 1, by omega⟩
+        dsimp only
+        rw [interp_vl, interpVl_refFree root st l m .null hl (by omega), hf]
+        simp only [deepAll, hm]
+        exact c2 m (by omega)
+    · intro R hR hb st
+      have plainCase : ∀ {R : Value}, Plain R →
+          Settles (fun n => interp n root R st) (lift st (resolve (abs st.cur R))) := by
+        intro R hP
+        rw [abs_plain _ hP, resolve_ofValue _ hP]
+        exact ⟨size R, fun n hn => interp_plain hP hn root st⟩
+      cases R with
+      | null => exact plainCase hR
+      | bool _ => exact plainCase hR
+      | num _ => exact plainCase hR
+      | lit _ => exact plainCase hR
+      | seq _ => exact plainCase hR
+      | str _ => exact plainCase hR
+      | vl _ => exact plainCase hR
+      | map es ck ok =>
+        simp only [Semi] at hR
+        obtain ⟨hes, hnd, rfl, rfl⟩ := hR
+        simp only [sz] at hb
+        obtain ⟨N1, c1⟩ := interpEs_settle root st es [] hes (by simpa using hnd)
+          (fun k v hm => by
+            rcases (semiEs_mem hes hm).2 with hP | ⟨l, rfl, hl⟩
+            · exact settle_refFree root hP _ _
+            · have := Termination.mem_szEs hm
+              exact ih1 l hl (by omega) (st.pushMappingKey k))
+        dsimp only at c1
+        refine ⟨N1 + 1, fun n hn => ?_⟩
+        obtain ⟨m, rfl⟩ : ∃ m, n = m + 1 := ⟨n - 1, by omega⟩
+        dsimp only
+        rw [interp_map, c1 m (by omega)]
+        simp only [abs, resolve]
+        cases resolveEs (absEs st.cur es) <;> simp [lift, Mapping.toValue]
+
+/-- A layer list of reference-free values renders to the deep merge of its layers. -/
+theorem vl_settles (root : Mapping) {l : List Value} (hl : RefFreeL l) (st : RState) :
+    Settles (fun n => interp n root (.vl l) st) (lift st (deepAll st.cur (normL l))) :=
+  (settle_main root (sz (.vl l))).1 l hl (Nat.le_refl _) st
+
+/-- An accumulated mapping renders to the value of its tree. -/
+theorem semi_settles (root : Mapping) {R : Value} (hR : Semi R) (st : RState) :
+    Settles (fun n => interp n root R st) (lift st (resolve (abs st.cur R))) :=
+  (settle_main root (sz R)).2 R hR (Nat.le_refl _) st
+
+/-! ## 5. Only conflicts are ever reported -/
+
+mutual
+theorem resolve_error_conflict : ∀ (t : Tree) (e : Err), PTree t → resolve t = .error e →
+    IsConflict e
+  | .leaf a, e, _, h => by simp [resolve] at h
+  | .bad e', e, ht, h => by
+    simp only [resolve, Except.error.injEq] at h; subst h; exact ht
+  | .node ts, e, ht, h => by
+    simp only [resolve] at h
+    simp only [PTree] at ht
+    cases h1 : resolveEs ts with
+    | error e' =>
+      simp only [h1, Except.error.injEq] at h; subst h
+      exact resolveEs_error_conflict ts e' ht.1 h1
+    | ok es => simp [h1] at h
+theorem resolveEs_error_conflict : ∀ (ts : List (Key × Tree)) (e : Err), PTreeEs ts →
+    resolveEs ts = .error e → IsConflict e
+  | [], e, _, h => by simp [resolveEs] at h
+  | (k, t) :: ts, e, ht, h => by
+    simp only [resolveEs] at h
+    simp only [PTreeEs] at ht
+    cases h1 : resolve t with
+    | error e' =>
+      simp only [h1, Except.error.injEq] at h; subst h
+      exact resolve_error_conflict t e' ht.2.1 h1
+    | ok v =>
+      simp only [h1] at h
+      cases h2 : resolveEs ts with
+      | error e' =>
+        simp only [h2, Except.error.injEq] at h; subst h
+        exact resolveEs_error_conflict ts e' ht.2.2 h2
+      | ok es => simp [h2] at h
+end
+
+theorem absEs_ptree (cur : List Str) : ∀ {es : List (Key × Value)}, SemiEs es →
+    PTreeEs (absEs cur es)
+  | [], _ => trivial
+  | (k, v) :: es, h => by
+    simp only [SemiEs] at h
+    exact ⟨h.1, stackTree_ptree _ h.2.1, absEs_ptree cur h.2.2⟩
+
+theorem merged_ptree' (cur : List Str) {vs : List Value} (h : PlainL vs) : PTree (merged cur vs) :=
+  merged_ptree cur vs _ ⟨trivial, rfl⟩ h
+
+/-- `deepAll` of plain layers is a plain value or a conflict error. -/
+theorem deepAll_plain (cur : List Str) {vs : List Value} (h : PlainL vs) {r : Value}
+    (hr : deepAll cur vs = .ok r) : Plain r :=
+  resolve_plain _ _ (merged_ptree' cur h) hr
+
+theorem deepAll_error_conflict (cur : List Str) {vs : List Value} (h : PlainL vs) {e : Err}
+    (he : deepAll cur vs = .error e) : IsConflict e :=
+  resolve_error_conflict _ _ (merged_ptree' cur h) he
+
+/-! ## 6. Whole parameter mappings -/
+
+theorem plainLayer_iff (m : Mapping) :
+    PlainLayer m ↔ PlainEs m.es ∧ (keys m.es).Nodup ∧ m.ck = [] ∧ m.ok = [] := Iff.rfl
+
+theorem refFreeLayer_iff (m : Mapping) :
+    RefFreeLayer m ↔ RefFreeEs m.es ∧ (keys m.es).Nodup ∧ m.ck = [] ∧ m.ok = [] := Iff.rfl
+
+theorem plainLayer_refFree {m : Mapping} (h : PlainLayer m) : RefFreeLayer m :=
+  plain_refFree _ h
+
+theorem refFreeLayer_norm {m : Mapping} (h : RefFreeLayer m) : PlainLayer (normLayer m) :=
+  refFree_norm _ h
+
+theorem normLayer_plain {m : Mapping} (h : PlainLayer m) : normLayer m = m := by
+  obtain ⟨es, ck, ok⟩ := m
+  simp only [normLayer, normEs_plain es ((plainLayer_iff _).1 h).1]
+
+/-- Merging reference-free layers one after the other with `Mapping::merge` never fails, and
+the result abstracts to the fold of `deepEs` over the interpolated layers. -/
+theorem mergeLayers_sim (cur : List Str) : ∀ (ms : List Mapping) (es : List (Key × Value)),
+    (∀ m ∈ ms, RefFreeLayer m) → SemiEs es → (keys es).Nodup →
+    ∃ es', mergeLayers ⟨es, [], []⟩ ms = .ok ⟨es', [], []⟩ ∧ SemiEs es' ∧ (keys es').Nodup ∧
+      absEs cur es' =
+        (ms.map normLayer).foldl (fun ts m => deepEs cur ts m.es) (absEs cur es)
+  | [], es, _, hes, hnd => ⟨es, rfl, hes, hnd, rfl⟩
+  | m :: ms, es, h, hes, hnd => by
+    obtain ⟨hp, _, hck, hok⟩ := (refFreeLayer_iff m).1 (h m (by simp))
+    obtain ⟨es1, a1, b1, c1⟩ := mergeEntries_sim cur m.es es hp hes
+    have hm : Mapping.merge ⟨es, [], []⟩ m = .ok ⟨es1, [], []⟩ := by
+      rw [merge_eq, hck, hok]; exact a1
+    have hnd1 : (keys es1).Nodup := merge_keys_nodup (m := ⟨es, [], []⟩) hnd hm
+    obtain ⟨es2, a2, b2, n2, c2⟩ := mergeLayers_sim cur ms es1
+      (fun m' hm' => h m' (List.mem_cons_of_mem _ hm')) b1 hnd1
+    refine ⟨es2, ?_, b2, n2, ?_⟩
+    · simp only [mergeLayers, hm, a2]
+    · rw [c2, c1]; rfl
+
+/-- Rendering an accumulated parameter mapping settles on the values of its trees. -/
+theorem renderParams_settles {es : List (Key × Value)} (hes : SemiEs es) (hnd : (keys es).Nodup) :
+    Settles (fun n => renderParamsF n ⟨es, [], []⟩)
+      (match resolveEs (absEs [] es) with
+       | .error e => .error e
+       | .ok es' => .ok ⟨es', [], []⟩) := by
+  obtain ⟨N, c⟩ := semi_settles ⟨es, [], []⟩ (R := .map es [] []) ⟨hes, hnd, rfl, rfl⟩ {}
+  dsimp only at c
+  refine ⟨N, fun n hn => ?_⟩
+  dsimp only
+  unfold renderParamsF renderedF
+  simp only [Mapping.toValue]
+  rw [c n hn]
+  simp only [abs, resolve]
+  cases hr : resolveEs (absEs [] es) with
+  | error e => simp [lift]
+  | ok es' =>
+    have hp : Plain (.map es' [] []) :=
+      resolve_plain (.node (absEs [] es)) _
+        ⟨absEs_ptree [] hes, by rw [tkeys_absEs]; exact hnd⟩ (by simp [resolve, hr])
+    simp [lift, flat_plain hp]
+
+/-- **Refinement, settled form.**  Merging reference-free layers with `Mapping::merge` and
+rendering the result is `deepParams` of the interpolated layers. -/
+theorem params_settle {ms : List Mapping} (h : ∀ m ∈ ms, RefFreeLayer m) :
+    Settles (fun n => (mergeLayers {} ms).bind (renderParamsF n))
+      (deepParams (ms.map normLayer)) := by
+  obtain ⟨es, a, b, c, d⟩ := mergeLayers_sim [] ms [] h trivial (by simp)
+  have a' : mergeLayers {} ms = .ok ⟨es, [], []⟩ := a
+  obtain ⟨N, cN⟩ := renderParams_settles b c
+  dsimp only at cN
+  refine ⟨N, fun n hn => ?_⟩
+  dsimp only
+  rw [a']
+  show renderParamsF n ⟨es, [], []⟩ = _
+  rw [cN n hn, d]
+  rfl
+
+/-! ## 7. The specification, key by key -/
+
+theorem tlookup_upsert_self (k : Key) (f : Tree → Tree) (d : Tree) (ts : List (Key × Tree)) :
+    tlookup k (upsert k f d ts) = some (match tlookup k ts with | some t => f t | none => d) := by
+  induction ts with
+  | nil => simp [upsert, tlookup]
+  | cons e ts ih =>
+    obtain ⟨k', t⟩ := e
+    by_cases h : k' = k
+    · simp [upsert, tlookup, h]
+    · simp [upsert, tlookup, h, ih]
+
+theorem tlookup_upsert_ne {k k1 : Key} (hne : k1 ≠ k) (f : Tree → Tree) (d : Tree)
+    (ts : List (Key × Tree)) : tlookup k1 (upsert k f d ts) = tlookup k1 ts := by
+  induction ts with
+  | nil => simp [upsert, tlookup, Ne.symm hne]
+  | cons e ts ih =>
+    obtain ⟨k', t⟩ := e
+    by_cases h : k' = k
+    · subst h
+      simp [upsert, tlookup, Ne.symm hne]
+    · simp only [upsert, h, if_false, tlookup, ih]
+
+theorem upsert_absent {k : Key} (f : Tree → Tree) (d : Tree) {ts : List (Key × Tree)}
+    (h : k ∉ tkeys ts) : upsert k f d ts = ts ++ [(k, d)] := by
+  induction ts with
+  | nil => rfl
+  | cons e ts ih =>
+    obtain ⟨k', t⟩ := e
+    simp only [tkeys, List.map_cons, List.mem_cons, not_or] at h
+    have hk : ¬ k' = k := fun e => h.1 e.symm
+    simp only [upsert, hk, if_false, List.cons_append, ih h.2]
+
+/-- The member `k` after a layer's entries were merged in: untouched if the layer does not
+write `k`; otherwise the layer's value over the old member (or the value itself if new). -/
+theorem tlookup_deepEs (cur : List Str) (k : Key) : ∀ (es : List (Key × Value))
+    (ts : List (Key × Tree)), (keys es).Nodup →
+    tlookup k (deepEs cur ts es) =
+      match lookup k es with
+      | none => tlookup k ts
+      | some v => some (deep (cur ++ [k.display]) ((tlookup k ts).getD (.leaf .null)) v)
+  | [], ts, _ => rfl
+  | (k', v') :: rest, ts, hnd => by
+    simp only [keys, List.map_cons, List.nodup_cons] at hnd
+    simp only [deepEs]
+    rw [tlookup_deepEs cur k rest _ hnd.2]
+    by_cases h : k' = k
+    · subst h
+      have hl : lookup k' rest = none := lookup_none_iff.2 hnd.1
+      simp only [hl, lookup, if_true, tlookup_upsert_self]
+      cases tlookup k' ts with
+      | none => simp [deep_leaf_null]
+      | some t => rfl
+    · have h' : k ≠ k' := fun e => h e.symm
+      simp only [lookup, h, if_false, tlookup_upsert_ne h']
+
+theorem addKey_eq (ks : List Key) (k : Key) :
+    addKey ks k = if k ∈ ks then ks else ks ++ [k] := rfl
+
+theorem tkeys_deepEs (cur : List Str) : ∀ (es : List (Key × Value)) (ts : List (Key × Tree)),
+    tkeys (deepEs cur ts es) = (keys es).foldl addKey (tkeys ts)
+  | [], ts => rfl
+  | (k, v) :: rest, ts => by
+    simp only [deepEs, keys, List.map_cons, List.foldl_cons]
+    rw [tkeys_deepEs cur rest, tkeys_upsert, addKey_eq]
+
+/-- One more layer value on the stack of a member that may not exist yet. -/
+def ostep (cur : List Str) (o : Option Tree) (v : Value) : Option Tree :=
+  some (deep cur (o.getD (.leaf .null)) v)
+
+theorem foldl_ostep_some (cur : List Str) : ∀ (vs : List Value) (t : Tree),
+    vs.foldl (ostep cur) (some t) = some (vs.foldl (deep cur) t)
+  | [], _ => rfl
+  | v :: vs, t => by
+    simp only [List.foldl_cons, ostep, Option.getD_some]
+    exact foldl_ostep_some cur vs _
+
+theorem foldl_ostep_none (cur : List Str) (vs : List Value) :
+    vs.foldl (ostep cur) none = if vs = [] then none else some (merged cur vs) := by
+  cases vs with
+  | nil => rfl
+  | cons v vs =>
+    simp only [List.foldl_cons, ostep, Option.getD_none, foldl_ostep_some, merged]
+    simp
+
+theorem tlookup_foldl_deepEs (cur : List Str) (k : Key) : ∀ (ms : List Mapping)
+    (ts : List (Key × Tree)), (∀ m ∈ ms, (keys m.es).Nodup) →
+    tlookup k (ms.foldl (fun ts m => deepEs cur ts m.es) ts) =
+      (valuesAt k ms).foldl (ostep (cur ++ [k.display])) (tlookup k ts)
+  | [], ts, _ => rfl
+  | m :: ms, ts, h => by
+    simp only [List.foldl_cons]
+    rw [tlookup_foldl_deepEs cur k ms _ (fun m' hm' => h m' (List.mem_cons_of_mem _ hm')),
+      tlookup_deepEs cur k m.es ts (h m (by simp))]
+    simp only [valuesAt]
+    cases lookup k m.es with
+    | none => rfl
+    | some v => rfl
+
+/-- **The stack of a key.**  After merging the layers `ms`, the member `k` is the merge of the
+values the layers write to `k`, in layer order — and there is no such member iff no layer
+writes `k`. -/
+theorem tlookup_mergedEs (cur : List Str) (k : Key) {ms : List Mapping}
+    (h : ∀ m ∈ ms, (keys m.es).Nodup) :
+    tlookup k (mergedEs cur ms) =
+      if valuesAt k ms = [] then none else some (merged (cur ++ [k.display]) (valuesAt k ms)) := by
+  unfold mergedEs
+  rw [tlookup_foldl_deepEs cur k ms [] h]
+  exact foldl_ostep_none _ _
+
+theorem tkeys_foldl_deepEs (cur : List Str) : ∀ (ms : List Mapping) (ts : List (Key × Tree)),
+    tkeys (ms.foldl (fun ts m => deepEs cur ts m.es) ts) =
+      ms.foldl (fun ks m => (keys m.es).foldl addKey ks) (tkeys ts)
+  | [], _ => rfl
+  | m :: ms, ts => by
+    simp only [List.foldl_cons]
+    rw [tkeys_foldl_deepEs cur ms, tkeys_deepEs]
+
+/-- The members appear in the order in which the layers first mention them. -/
+theorem tkeys_mergedEs (cur : List Str) (ms : List Mapping) :
+    tkeys (mergedEs cur ms) = keyOrder ms := tkeys_foldl_deepEs cur ms []
+
+/-- If all members resolve, `lookup` in the result is `resolve` of the member. -/
+theorem resolveEs_lookup (k : Key) : ∀ {ts : List (Key × Tree)} {es : List (Key × Value)},
+    resolveEs ts = .ok es →
+    lookup k es = match tlookup k ts with
+      | none => none
+      | some t => (match resolve t with | .ok v => some v | .error _ => none)
+  | [], es, h => by
+    simp only [resolveEs, Except.ok.injEq] at h; subst h; rfl
+  | (k', t) :: ts, es, h => by
+    simp only [resolveEs] at h
+    cases h1 : resolve t with
+    | error e => simp [h1] at h
+    | ok v =>
+      simp only [h1] at h
+      cases h2 : resolveEs ts with
+      | error e => simp [h2] at h
+      | ok es' =>
+        simp only [h2, Except.ok.injEq] at h; subst h
+        by_cases hk : k' = k
+        · simp [lookup, tlookup, hk, h1]
+        · simp only [lookup, tlookup, hk, if_false]
+          exact resolveEs_lookup k h2
+
+/-- If the members do not all resolve, the error is that of some member (the first one). -/
+theorem resolveEs_error_mem : ∀ {ts : List (Key × Tree)} {e : Err}, resolveEs ts = .error e →
+    ∃ k t, (k, t) ∈ ts ∧ resolve t = .error e
+  | [], e, h => by simp [resolveEs] at h
+  | (k', t) :: ts, e, h => by
+    simp only [resolveEs] at h
+    cases h1 : resolve t with
+    | error e' =>
+      simp only [h1, Except.error.injEq] at h; subst h
+      exact ⟨k', t, List.mem_cons_self, h1⟩
+    | ok v =>
+      simp only [h1] at h
+      cases h2 : resolveEs ts with
+      | error e' =>
+        simp only [h2, Except.error.injEq] at h; subst h
+        obtain ⟨k, t', hm, hr⟩ := resolveEs_error_mem h2
+        exact ⟨k, t', List.mem_cons_of_mem _ hm, hr⟩
+      | ok es => simp [h2] at h
+
+/-- All members resolve iff `resolveEs` succeeds. -/
+theorem resolveEs_ok_iff : ∀ {ts : List (Key × Tree)},
+    (∃ es, resolveEs ts = .ok es) ↔ ∀ k t, (k, t) ∈ ts → ∃ v, resolve t = .ok v
+  | [] => by simp [resolveEs]
+  | (k', t) :: ts => by
+    constructor
+    · rintro ⟨es, h⟩ k t' hm
+      simp only [resolveEs] at h
+      cases h1 : resolve t with
+      | error e => simp [h1] at h
+      | ok v =>
+        simp only [h1] at h
+        cases h2 : resolveEs ts with
+        | error e => simp [h2] at h
+        | ok es' =>
+          rcases List.mem_cons.1 hm with heq | hm'
+          · simp only [Prod.mk.injEq] at heq; obtain ⟨rfl, rfl⟩ := heq; exact ⟨v, h1⟩
+          · exact (resolveEs_ok_iff.1 ⟨es', h2⟩) k t' hm'
+    · intro h
+      obtain ⟨v, h1⟩ := h k' t List.mem_cons_self
+      obtain ⟨es', h2⟩ := (resolveEs_ok_iff (ts := ts)).2
+        (fun k t' hm => h k t' (List.mem_cons_of_mem _ hm))
+      exact ⟨(k', v) :: es', by simp only [resolveEs, h1, h2]⟩
+
+theorem tlookup_of_mem_nodup {k : Key} {t : Tree} {ts : List (Key × Tree)}
+    (hn : (tkeys ts).Nodup) (h : (k, t) ∈ ts) : tlookup k ts = some t := by
+  induction ts with
+  | nil => simp at h
+  | cons e ts ih =>
+    obtain ⟨k', t'⟩ := e
+    simp only [tkeys, List.map_cons, List.nodup_cons] at hn
+    rcases List.mem_cons.1 h with heq | hmem
+    · simp only [Prod.mk.injEq] at heq; obtain ⟨rfl, rfl⟩ := heq; simp [tlookup]
+    · have hne : k' ≠ k := by
+        intro e; subst e
+        exact hn.1 (List.mem_map.2 ⟨(k', t), hmem, rfl⟩)
+      simp only [tlookup, hne, if_false]
+      exact ih hn.2 hmem
+
+theorem tlookup_mem {k : Key} {t : Tree} {ts : List (Key × Tree)} (h : tlookup k ts = some t) :
+    (k, t) ∈ ts := by
+  induction ts with
+  | nil => simp [tlookup] at h
+  | cons e ts ih =>
+    obtain ⟨k', t'⟩ := e
+    simp only [tlookup] at h
+    by_cases hk : k' = k
+    · simp only [hk, if_true, Option.some.injEq] at h; subst h; subst hk; exact List.mem_cons_self
+    · simp only [hk, if_false] at h; exact List.mem_cons_of_mem _ (ih h)
+
+/-! ## 8. The binary reading, and mappings over mappings -/
+
+theorem merged_snoc (cur : List Str) (vs : List Value) (v : Value) :
+    merged cur (vs ++ [v]) = deep cur (merged cur vs) v := by
+  simp [merged, List.foldl_append]
+
+theorem merged_append (cur : List Str) (vs ws : List Value) :
+    merged cur (vs ++ ws) = ws.foldl (deep cur) (merged cur vs) := by
+  simp [merged, List.foldl_append]
+
+/-- As long as the stack so far merges without conflict, one more layer is `merge2`. -/
+theorem deepAll_snoc (cur : List Str) {vs : List Value} (h : PlainL vs) {a : Value}
+    (ha : deepAll cur vs = .ok a) (v : Value) :
+    deepAll cur (vs ++ [v]) = merge2 cur a v := by
+  unfold deepAll merge2
+  rw [merged_snoc, ofValue_resolve _ _ (merged_ptree' cur h) ha]
+
+theorem tkeys_ofValueEs : ∀ (es : List (Key × Value)), tkeys (ofValueEs es) = keys es
+  | [] => rfl
+  | (k, v) :: es => by
+    have := tkeys_ofValueEs es
+    simp only [tkeys, keys, ofValueEs, List.map_cons] at this ⊢
+    rw [this]
+
+theorem ofValueEs_append : ∀ (a b : List (Key × Value)),
+    ofValueEs (a ++ b) = ofValueEs a ++ ofValueEs b
+  | [], _ => rfl
+  | (k, v) :: a, b => by simp only [List.cons_append, ofValueEs, ofValueEs_append a b]
+
+theorem deepEs_ofValueEs (cur : List Str) : ∀ (es a : List (Key × Value)),
+    (keys (a ++ es)).Nodup → deepEs cur (ofValueEs a) es = ofValueEs (a ++ es)
+  | [], a, _ => by simp [deepEs]
+  | (k, v) :: es, a, h => by
+    have hk : k ∉ tkeys (ofValueEs a) := by
+      rw [tkeys_ofValueEs]
+      intro hk
+      simp only [keys, List.map_append, List.map_cons] at h
+      rw [List.nodup_append] at h
+      exact h.2.2 k hk k (by simp) rfl
+    simp only [deepEs]
+    rw [upsert_absent _ _ hk]
+    have : ofValueEs a ++ [(k, ofValue v)] = ofValueEs (a ++ [(k, v)]) := by
+      rw [ofValueEs_append]; rfl
+    rw [this, deepEs_ofValueEs cur es (a ++ [(k, v)]) (by simpa using h)]
+    simp
+
+theorem foldl_deep_node (cur : List Str) : ∀ (ms : List Mapping) (ts : List (Key × Tree)),
+    (ms.map Mapping.toValue).foldl (deep cur) (.node ts) =
+      .node (ms.foldl (fun ts m => deepEs cur ts m.es) ts)
+  | [], _ => rfl
+  | m :: ms, ts => by
+    simp only [List.map_cons, List.foldl_cons, Mapping.toValue, deep]
+    exact foldl_deep_node cur ms _
+
+/-- **Mappings over mappings.**  A non-empty stack of mappings merges member by member. -/
+theorem merged_maps (cur : List Str) {m : Mapping} {ms : List Mapping}
+    (h : (keys m.es).Nodup) :
+    merged cur ((m :: ms).map Mapping.toValue) = .node (mergedEs cur (m :: ms)) := by
+  have h0 : deepEs cur [] m.es = ofValueEs m.es := by
+    have := deepEs_ofValueEs cur m.es [] (by simpa using h)
+    simpa [ofValueEs] using this
+  simp only [merged, mergedEs, List.map_cons, List.foldl_cons, deep_leaf_null]
+  rw [h0]
+  simp only [Mapping.toValue, ofValue]
+  exact foldl_deep_node cur ms _
+
+/-! ## 9. Every reported conflict names a parameter at or below the merged one -/
+
+mutual
+/-- Every poisoned parameter inside the tree of the parameter at `cur` carries a conflict error
+whose path is the path of that very position. -/
+def BadBelow : List Str → Tree → Prop
+  | _, .leaf _ => True
+  | cur, .bad e => ConflictBelow cur e
+  | cur, .node ts => BadBelowEs cur ts
+def BadBelowEs : List Str → List (Key × Tree) → Prop
+  | _, [] => True
+  | cur, (k, t) :: ts => BadBelow (cur ++ [k.display]) t ∧ BadBelowEs cur ts
+end
+
+theorem conflictBelow_conflict (cur : List Str) (v : Value) (onto : Str) :
+    ConflictBelow cur (conflict cur v onto) :=
+  ⟨[], v.kind, onto, by simp only [conflict, List.append_nil]⟩
+
+theorem ConflictBelow.up {cur : List Str} {x : Str} {e : Err} (h : ConflictBelow (cur ++ [x]) e) :
+    ConflictBelow cur e := by
+  obtain ⟨ks, o, t, rfl⟩ := h
+  exact ⟨x :: ks, o, t, by simp⟩
+
+theorem ConflictBelow.isConflict {cur : List Str} {e : Err} (h : ConflictBelow cur e) :
+    IsConflict e := by
+  obtain ⟨ks, o, t, rfl⟩ := h
+  exact ⟨_, _, _, rfl⟩
+
+mutual
+theorem ofValue_bb : ∀ (v : Value) (cur : List Str), BadBelow cur (ofValue v)
+  | .map es ck ok, cur => by simp only [ofValue, BadBelow]; exact ofValueEs_bb es cur
+  | .null, _ => trivial
+  | .bool _, _ => trivial
+  | .num _, _ => trivial
+  | .str _, _ => trivial
+  | .lit _, _ => trivial
+  | .seq _, _ => trivial
+  | .vl _, _ => trivial
+theorem ofValueEs_bb : ∀ (es : List (Key × Value)) (cur : List Str), BadBelowEs cur (ofValueEs es)
+  | [], _ => trivial
+  | (_, v) :: es, cur => ⟨ofValue_bb v _, ofValueEs_bb es cur⟩
+end
+
+theorem upsert_bb {cur : List Str} {k : Key} {f : Tree → Tree} {d : Tree} {ts : List (Key × Tree)}
+    (hf : ∀ t, BadBelow (cur ++ [k.display]) t → BadBelow (cur ++ [k.display]) (f t))
+    (hd : BadBelow (cur ++ [k.display]) d) (h : BadBelowEs cur ts) :
+    BadBelowEs cur (upsert k f d ts) := by
+  induction ts with
+  | nil => exact ⟨hd, trivial⟩
+  | cons e ts ih =>
+    obtain ⟨k', t⟩ := e
+    simp only [BadBelowEs] at h
+    simp only [upsert]
+    by_cases hk : k' = k
+    · subst hk
+      simp only [if_true, BadBelowEs]
+      exact ⟨hf t h.1, h.2⟩
+    · simp only [hk, if_false, BadBelowEs]
+      exact ⟨h.1, ih h.2⟩
+
+theorem mergeLeaf_bb (cur : List Str) (a v : Value) : BadBelow cur (mergeLeaf cur a v) := by
+  unfold mergeLeaf
+  split
+  · exact ofValue_bb v cur
+  · split
+    · trivial
+    · exact conflictBelow_conflict _ _ _
+  · split
+    · exact conflictBelow_conflict _ _ _
+    · trivial
+
+mutual
+theorem deep_bb : ∀ (v : Value) (cur : List Str) (t : Tree), BadBelow cur t →
+    BadBelow cur (deep cur t v)
+  | .null, cur, t, ht => by cases t <;> first | exact ht | trivial
+  | .map es ck ok, cur, t, ht => by
+    cases t with
+    | bad e => exact ht
+    | leaf a => exact mergeLeaf_bb cur a _
+    | node ts => simp only [deep, BadBelow]; exact deepEs_bb es cur ts ht
+  | .bool b, cur, t, ht => by
+    cases t with
+    | bad e => exact ht
+    | leaf a => exact mergeLeaf_bb cur a _
+    | node ts => exact conflictBelow_conflict _ _ _
+  | .num b, cur, t, ht => by
+    cases t with
+    | bad e => exact ht
+    | leaf a => exact mergeLeaf_bb cur a _
+    | node ts => exact conflictBelow_conflict _ _ _
+  | .str b, cur, t, ht => by
+    cases t with
+    | bad e => exact ht
+    | leaf a => exact mergeLeaf_bb cur a _
+    | node ts => exact conflictBelow_conflict _ _ _
+  | .lit b, cur, t, ht => by
+    cases t with
+    | bad e => exact ht
+    | leaf a => exact mergeLeaf_bb cur a _
+    | node ts => exact conflictBelow_conflict _ _ _
+  | .seq b, cur, t, ht => by
+    cases t with
+    | bad e => exact ht
+    | leaf a => exact mergeLeaf_bb cur a _
+    | node ts => exact conflictBelow_conflict _ _ _
+  | .vl b, cur, t, ht => by
+    cases t with
+    | bad e => exact ht
+    | leaf a => exact mergeLeaf_bb cur a _
+    | node ts => exact conflictBelow_conflict _ _ _
+theorem deepEs_bb : ∀ (es : List (Key × Value)) (cur : List Str) (ts : List (Key × Tree)),
+    BadBelowEs cur ts → BadBelowEs cur (deepEs cur ts es)
+  | [], _, _, h => h
+  | (k, v) :: es, cur, ts, h => by
+    simp only [deepEs]
+    exact deepEs_bb es cur _
+      (upsert_bb (fun t ht => deep_bb v (cur ++ [k.display]) t ht) (ofValue_bb v _) h)
+end
+
+theorem foldl_deep_bb (cur : List Str) : ∀ (vs : List Value) (t : Tree), BadBelow cur t →
+    BadBelow cur (vs.foldl (deep cur) t)
+  | [], _, h => h
+  | v :: vs, t, h => foldl_deep_bb cur vs _ (deep_bb v cur t h)
+
+theorem merged_bb (cur : List Str) (vs : List Value) : BadBelow cur (merged cur vs) :=
+  foldl_deep_bb cur vs _ trivial
+
+theorem mergedEs_bb (cur : List Str) (ms : List Mapping) : BadBelowEs cur (mergedEs cur ms) := by
+  unfold mergedEs
+  suffices h : ∀ (ms : List Mapping) (ts : List (Key × Tree)), BadBelowEs cur ts →
+      BadBelowEs cur (ms.foldl (fun ts m => deepEs cur ts m.es) ts) from h ms [] trivial
+  intro ms
+  induction ms with
+  | nil => intro ts h; exact h
+  | cons m ms ih => intro ts h; exact ih _ (deepEs_bb m.es cur ts h)
+
+mutual
+theorem resolve_bb : ∀ (t : Tree) (cur : List Str) (e : Err), BadBelow cur t →
+    resolve t = .error e → ConflictBelow cur e
+  | .leaf a, _, e, _, h => by simp [resolve] at h
+  | .bad e', _, e, ht, h => by
+    simp only [resolve, Except.error.injEq] at h; subst h; exact ht
+  | .node ts, cur, e, ht, h => by
+    simp only [resolve] at h
+    cases h1 : resolveEs ts with
+    | error e' =>
+      simp only [h1, Except.error.injEq] at h; subst h
+      exact resolveEs_bb ts cur e' ht h1
+    | ok es => simp [h1] at h
+theorem resolveEs_bb : ∀ (ts : List (Key × Tree)) (cur : List Str) (e : Err), BadBelowEs cur ts →
+    resolveEs ts = .error e → ConflictBelow cur e
+  | [], _, e, _, h => by simp [resolveEs] at h
+  | (k, t) :: ts, cur, e, ht, h => by
+    simp only [resolveEs] at h
+    simp only [BadBelowEs] at ht
+    cases h1 : resolve t with
+    | error e' =>
+      simp only [h1, Except.error.injEq] at h; subst h
+      exact (resolve_bb t _ e' ht.1 h1).up
+    | ok v =>
+      simp only [h1] at h
+      cases h2 : resolveEs ts with
+      | error e' =>
+        simp only [h2, Except.error.injEq] at h; subst h
+        exact resolveEs_bb ts cur e' ht.2 h2
+      | ok es => simp [h2] at h
+end
+
+/-- Whatever the layers are: an error of `deepAll` is a merge conflict at `cur` or below. -/
+theorem deepAll_error_below (cur : List Str) (vs : List Value) {e : Err}
+    (h : deepAll cur vs = .error e) : ConflictBelow cur e :=
+  resolve_bb _ cur e (merged_bb cur vs) h
+
+theorem deepParams_error_below (ms : List Mapping) {e : Err} (h : deepParams ms = .error e) :
+    ConflictBelow [] e := by
+  unfold deepParams at h
+  cases h1 : resolveEs (mergedParams ms) with
+  | error e' =>
+    simp only [h1, Except.error.injEq] at h; subst h
+    exact resolveEs_bb _ [] e' (mergedEs_bb [] ms) h1
+  | ok es => simp [h1] at h
+
+/-! ## 10. `deepParams` key by key; finished runs -/
+
+theorem resolveEs_keys : ∀ {ts : List (Key × Tree)} {es : List (Key × Value)},
+    resolveEs ts = .ok es → keys es = tkeys ts
+  | [], es, h => by simp only [resolveEs, Except.ok.injEq] at h; subst h; rfl
+  | (k, t) :: ts, es, h => by
+    simp only [resolveEs] at h
+    cases h1 : resolve t with
+    | error e => simp [h1] at h
+    | ok v =>
+      simp only [h1] at h
+      cases h2 : resolveEs ts with
+      | error e => simp [h2] at h
+      | ok es' =>
+        simp only [h2, Except.ok.injEq] at h; subst h
+        have := resolveEs_keys h2
+        simp only [keys, tkeys, List.map_cons] at this ⊢
+        rw [this]
+
+theorem tkeys_deepEs_nodup (cur : List Str) : ∀ (es : List (Key × Value)) (ts : List (Key × Tree)),
+    (tkeys ts).Nodup → (tkeys (deepEs cur ts es)).Nodup
+  | [], _, h => h
+  | (k, v) :: es, ts, h => by
+    simp only [deepEs]
+    exact tkeys_deepEs_nodup cur es _ (tkeys_upsert_nodup h)
+
+theorem tkeys_mergedEs_nodup (cur : List Str) (ms : List Mapping) :
+    (tkeys (mergedEs cur ms)).Nodup := by
+  unfold mergedEs
+  suffices h : ∀ (ms : List Mapping) (ts : List (Key × Tree)), (tkeys ts).Nodup →
+      (tkeys (ms.foldl (fun ts m => deepEs cur ts m.es) ts)).Nodup from h ms [] (by simp)
+  intro ms
+  induction ms with
+  | nil => intro ts h; exact h
+  | cons m ms ih => intro ts h; exact ih _ (tkeys_deepEs_nodup cur m.es ts h)
+
+/-- The members of `mergedEs` are exactly the non-empty stacks. -/
+theorem mem_mergedEs_iff (cur : List Str) {ms : List Mapping} (h : ∀ m ∈ ms, (keys m.es).Nodup)
+    (k : Key) (t : Tree) :
+    (k, t) ∈ mergedEs cur ms ↔
+      valuesAt k ms ≠ [] ∧ t = merged (cur ++ [k.display]) (valuesAt k ms) := by
+  constructor
+  · intro hm
+    have := tlookup_of_mem_nodup (tkeys_mergedEs_nodup cur ms) hm
+    rw [tlookup_mergedEs cur k h] at this
+    by_cases hv : valuesAt k ms = []
+    · simp [hv] at this
+    · simp only [hv, if_false, Option.some.injEq] at this
+      exact ⟨hv, this.symm⟩
+  · rintro ⟨hv, rfl⟩
+    apply tlookup_mem
+    rw [tlookup_mergedEs cur k h]
+    simp [hv]
+
+/-- **`deepParams`, key by key.** -/
+theorem deepParams_by_key {ms : List Mapping} (h : ∀ m ∈ ms, (keys m.es).Nodup) :
+    (∀ out, deepParams ms = .ok out →
+      keys out.es = keyOrder ms ∧ out.ck = [] ∧ out.ok = [] ∧
+      ∀ k, (valuesAt k ms = [] → lookup k out.es = none) ∧
+        (valuesAt k ms ≠ [] →
+          ∃ r, deepAll [k.display] (valuesAt k ms) = .ok r ∧ lookup k out.es = some r)) ∧
+    (∀ e, deepParams ms = .error e →
+      ∃ k, valuesAt k ms ≠ [] ∧ deepAll [k.display] (valuesAt k ms) = .error e) ∧
+    ((∀ k, valuesAt k ms ≠ [] → ∃ r, deepAll [k.display] (valuesAt k ms) = .ok r) →
+      ∃ out, deepParams ms = .ok out) := by
+  refine ⟨?_, ?_, ?_⟩
+  · intro out ho
+    unfold deepParams at ho
+    cases h1 : resolveEs (mergedParams ms) with
+    | error e => simp [h1] at ho
+    | ok es =>
+      simp only [h1, Except.ok.injEq] at ho; subst ho
+      refine ⟨by rw [resolveEs_keys h1]; exact tkeys_mergedEs [] ms, rfl, rfl, ?_⟩
+      intro k
+      have hl := resolveEs_lookup k h1
+      have ht : tlookup k (mergedParams ms) = _ := tlookup_mergedEs [] k h
+      rw [ht] at hl
+      constructor
+      · intro hv; simpa [hv] using hl
+      · intro hv
+        simp only [hv, if_false, List.nil_append] at hl
+        have hmem : (k, merged [k.display] (valuesAt k ms)) ∈ mergedEs [] ms :=
+          (mem_mergedEs_iff [] h k _).2 ⟨hv, rfl⟩
+        obtain ⟨r, hr⟩ := (resolveEs_ok_iff.1 ⟨es, h1⟩) k _ hmem
+        exact ⟨r, hr, by simpa [hr] using hl⟩
+  · intro e he
+    unfold deepParams at he
+    cases h1 : resolveEs (mergedParams ms) with
+    | ok es => simp [h1] at he
+    | error e' =>
+      simp only [h1, Except.error.injEq] at he; subst he
+      obtain ⟨k, t, hm, hr⟩ := resolveEs_error_mem h1
+      obtain ⟨hv, rfl⟩ := (mem_mergedEs_iff [] h k t).1 hm
+      exact ⟨k, hv, hr⟩
+  · intro hall
+    have : ∃ es, resolveEs (mergedParams ms) = .ok es := by
+      apply resolveEs_ok_iff.2
+      intro k t hm
+      obtain ⟨hv, rfl⟩ := (mem_mergedEs_iff [] h k t).1 hm
+      exact hall k hv
+    obtain ⟨es, hes⟩ := this
+    exact ⟨⟨es, [], []⟩, by simp only [deepParams, hes]⟩
+
+theorem tlookup_ofValueEs (k : Key) : ∀ (es : List (Key × Value)),
+    tlookup k (ofValueEs es) = (lookup k es).map ofValue
+  | [] => rfl
+  | (k', v) :: es => by
+    by_cases h : k' = k
+    · simp [ofValueEs, tlookup, lookup, h]
+    · simp [ofValueEs, tlookup, lookup, h, tlookup_ofValueEs k es]
+
+theorem plainEs_lookup {es : List (Key × Value)} {k : Key} {v : Value} (h : PlainEs es)
+    (hl : lookup k es = some v) : Plain v := by
+  induction es with
+  | nil => simp at hl
+  | cons e es ih =>
+    obtain ⟨k', v'⟩ := e
+    simp only [PlainEs] at h
+    simp only [lookup] at hl
+    by_cases hk : k' = k
+    · simp only [hk, if_true, Option.some.injEq] at hl; subst hl; exact h.2.1
+    · simp only [hk, if_false] at hl; exact ih h.2.2 hl
+
+/-- A settled computation that is monotone in the fuel has its settled value at every amount
+of fuel at which it finishes. -/
+theorem settles_finished {α : Type} {f : Nat → R α} {r : R α} (hs : Settles f r)
+    (mono : ∀ n m, n ≤ m → f n ≠ .error .fuel → f m = f n) {n : Nat}
+    (hn : f n ≠ .error .fuel) : f n = r := by
+  obtain ⟨N, c⟩ := hs
+  have h1 := mono n (max n N) (Nat.le_max_left _ _) hn
+  rw [← h1]
+  exact c _ (Nat.le_max_right _ _)
+
+theorem bind_renderParams_mono (x : R Mapping) (n m : Nat) (hle : n ≤ m)
+    (h : x.bind (renderParamsF n) ≠ .error .fuel) :
+    x.bind (renderParamsF m) = x.bind (renderParamsF n) := by
+  cases x with
+  | error e => rfl
+  | ok mp => exact renderParamsF_fuel_mono_le hle mp rfl h
+
+theorem lookup_normEs (k : Key) : ∀ (es : List (Key × Value)),
+    lookup k (normEs es) = (lookup k es).map norm
+  | [] => rfl
+  | (k', v) :: es => by
+    by_cases h : k' = k
+    · simp [normEs, lookup, h]
+    · simp [normEs, lookup, h, lookup_normEs k es]
+
+/-- The stack of a key in the interpolated layers is the interpolated stack. -/
+theorem valuesAt_norm (k : Key) : ∀ (ms : List Mapping),
+    valuesAt k (ms.map normLayer) = normL (valuesAt k ms)
+  | [] => rfl
+  | m :: ms => by
+    simp only [List.map_cons, valuesAt, normLayer, lookup_normEs]
+    cases lookup k m.es with
+    | none => simpa using valuesAt_norm k ms
+    | some v => simp [normL, valuesAt_norm k ms]
+
+theorem keyOrder_norm (ms : List Mapping) : keyOrder (ms.map normLayer) = keyOrder ms := by
+  unfold keyOrder
+  suffices h : ∀ (ms : List Mapping) (ks : List Key),
+      (ms.map normLayer).foldl (fun ks m => (keys m.es).foldl addKey ks) ks =
+        ms.foldl (fun ks m => (keys m.es).foldl addKey ks) ks from h ms []
+  intro ms
+  induction ms with
+  | nil => intro ks; rfl
+  | cons m ms ih =>
+    intro ks
+    simp only [List.map_cons, List.foldl_cons, normLayer, keys_normEs]
+    exact ih _
+
+theorem lift_eq (st : RState) (x : Except Err Value) :
+    lift st x = match x with
+      | .ok r => .ok (r, st)
+      | .error e => .error e := by
+  cases x <;> rfl
+
+/-! ## 11. Override keys of a layer (top level) -/
+
+/-- `Mapping::insert_impl` of a reference-free value under a clean key with `force_override`
+`fo`, into a mapping without constant keys. -/
+theorem insert_simO (cur : List Str) {es : List (Key × Value)} (okb : List Key) {k : Key}
+    {v : Value} (fo : Bool) (hk : CleanKey k) (hes : SemiEs es) (hv : RefFree v) :
+    ∃ es' ok', (⟨es, [], okb⟩ : Mapping).insertImpl k v false fo = .ok ⟨es', [], ok'⟩ ∧
+      SemiEs es' ∧
+      absEs cur es' =
+        upsert k (fun t => if fo = true then ofValue (norm v)
+                           else deep (cur ++ [k.display]) t (norm v))
+          (ofValue (norm v)) (absEs cur es) := by
+  have h1 : k.stripPrefix.1 = k := by rw [show k.stripPrefix = (k, none) from hk]
+  have h2 : k.stripPrefix.2 = none := by rw [show k.stripPrefix = (k, none) from hk]
+  cases hl : lookup k es with
+  | none =>
+    refine ⟨es ++ [(k, v)], if fo then setInsert k okb else okb, ?_, ?_, ?_⟩
+    · rw [insertImpl_absent v false fo (by rw [h1]; exact hl)]
+      simp [h1, h2]
+    · exact semiEs_append.2 ⟨hes, hk, Or.inl hv, trivial⟩
+    · rw [upsert_absEs_absent cur _ _ hl, absEs_append]
+      simp only [absEs, stackTree_refFree _ hv]
+  | some old =>
+    cases fo with
+    | true =>
+      refine ⟨replaceVal k v es, okb, ?_, ?_, ?_⟩
+      · rw [insertImpl_present v false true (by rw [h1]; exact hl) (by simp)]
+        simp [h1, h2]
+      · exact semiEs_replaceVal hes (Or.inl hv)
+      · exact (upsert_absEs_present cur _ _ hl (by simp [stackTree_refFree _ hv])).symm
+    | false =>
+      refine ⟨replaceVal k (combine old v) es, okb, ?_, ?_, ?_⟩
+      · rw [insertImpl_present v false false (by rw [h1]; exact hl) (by simp)]
+        simp [h1, h2]
+      · exact semiEs_replaceVal hes (semiV_combine (semiEs_lookup hes hl) hv)
+      · exact (upsert_absEs_present cur _ _ hl (by simp [stackTree_combine _ hv])).symm
+
+/-- The entry loop of `Mapping::merge` for a layer with override keys `ook` is `deepEsO`. -/
+theorem mergeEntries_simO (cur : List Str) (ook : List Key) : ∀ (es' es : List (Key × Value))
+    (okb : List Key), RefFreeEs es' → SemiEs es →
+    ∃ es'' ok'', (⟨es, [], okb⟩ : Mapping).mergeEntries [] ook es' = .ok ⟨es'', [], ok''⟩ ∧
+      SemiEs es'' ∧ absEs cur es'' = deepEsO cur ook (absEs cur es) (normEs es')
+  | [], es, okb, _, hes => ⟨es, okb, rfl, hes, rfl⟩
+  | (k, v) :: rest, es, okb, h, hes => by
+    simp only [RefFreeEs] at h
+    obtain ⟨es1, ok1, a1, b1, c1⟩ := insert_simO cur okb (decide (k ∈ ook)) h.1 hes h.2.1
+    obtain ⟨es2, ok2, a2, b2, c2⟩ := mergeEntries_simO cur ook rest es1 ok1 h.2.2 b1
+    refine ⟨es2, ok2, ?_, b2, ?_⟩
+    · rw [mergeEntries_cons]
+      simp only [List.not_mem_nil, decide_false, a1, a2]
+    · rw [c2, c1]
+      simp only [decide_eq_true_eq, normEs, deepEsO]
+
+theorem overrideLayer_of_refFree {m : Mapping} (h : RefFreeLayer m) : OverrideLayer m :=
+  ⟨h.1, h.2.1, h.2.2.1⟩
+
+/-- Merging layers with override keys never fails either, and abstracts to the fold of
+`deepEsO` over the interpolated layers. -/
+theorem mergeLayers_simO (cur : List Str) : ∀ (ms : List Mapping) (es : List (Key × Value))
+    (okb : List Key), (∀ m ∈ ms, OverrideLayer m) → SemiEs es → (keys es).Nodup →
+    ∃ es' ok', mergeLayers ⟨es, [], okb⟩ ms = .ok ⟨es', [], ok'⟩ ∧ SemiEs es' ∧ (keys es').Nodup ∧
+      absEs cur es' =
+        (ms.map normLayer).foldl (fun ts m => deepEsO cur m.ok ts m.es) (absEs cur es)
+  | [], es, okb, _, hes, hnd => ⟨es, okb, rfl, hes, hnd, rfl⟩
+  | m :: ms, es, okb, h, hes, hnd => by
+    obtain ⟨hp, _, hck⟩ := h m (by simp)
+    obtain ⟨es1, ok1, a1, b1, c1⟩ := mergeEntries_simO cur m.ok m.es es okb hp hes
+    have hm : Mapping.merge ⟨es, [], okb⟩ m = .ok ⟨es1, [], ok1⟩ := by
+      rw [merge_eq, hck]; exact a1
+    have hnd1 : (keys es1).Nodup := merge_keys_nodup (m := ⟨es, [], okb⟩) hnd hm
+    obtain ⟨es2, ok2, a2, b2, n2, c2⟩ := mergeLayers_simO cur ms es1 ok1
+      (fun m' hm' => h m' (List.mem_cons_of_mem _ hm')) b1 hnd1
+    refine ⟨es2, ok2, ?_, b2, n2, ?_⟩
+    · simp only [mergeLayers, hm, a2]
+    · rw [c2, c1]; rfl
+
+/-- Outcome of an entry loop, up to the override flags of the result. -/
+def EsOutcome (x : R Mapping) (accEs : List (Key × Value)) :
+    Except Err (List (Key × Value)) → Prop
+  | .error e => x = .error e
+  | .ok es' => ∃ m, x = .ok m ∧ m.es = accEs ++ es' ∧ m.ck = []
+
+/-- `Mapping::interpolate` on an accumulated mapping with override flags `okl`. -/
+theorem interpEs_settleO (root : Mapping) (st : RState) (okl : List Key) :
+    ∀ (es : List (Key × Value)) (acc : Mapping), acc.ck = [] → SemiEs es →
+    (keys acc.es ++ keys es).Nodup →
+    ∃ N, ∀ n, N ≤ n →
+      EsOutcome (interpEs n root es [] okl st acc) acc.es (resolveEs (absEs st.cur es))
+  | [], acc, hck, _, _ => ⟨1, fun n hn => by
+      obtain ⟨m, rfl⟩ : ∃ m, n = m + 1 := ⟨n - 1, by omega⟩
+      exact ⟨acc, rfl, by simp, hck⟩⟩
+  | (k, v) :: rest, acc, hck, hes, hnd => by
+    simp only [SemiEs] at hes
+    have hmem : Settles (fun n => interp n root v (st.pushMappingKey k))
+        (lift (st.pushMappingKey k) (resolve (stackTree (st.cur ++ [k.display]) v))) := by
+      rcases hes.2.1 with hP | ⟨l, rfl, hl⟩
+      · exact settle_refFree root hP _ _
+      · exact vl_settles root hl (st.pushMappingKey k)
+    obtain ⟨N1, c1⟩ := hmem
+    dsimp only at c1
+    have hstep := nodup_keys_step (by simpa [keys] using hnd : (keys acc.es ++ k :: keys rest).Nodup)
+    have hpt := stackTree_ptree (st.cur ++ [k.display]) hes.2.1
+    cases hr : resolve (stackTree (st.cur ++ [k.display]) v) with
+    | error e =>
+      refine ⟨N1 + 1, fun n hn => ?_⟩
+      obtain ⟨m, rfl⟩ : ∃ m, n = m + 1 := ⟨n - 1, by omega⟩
+      simp only [absEs, resolveEs, hr, EsOutcome]
+      rw [interpEs_cons, c1 m (by omega), hr]
+      rfl
+    | ok w =>
+      have hw : Plain w := resolve_plain _ _ hpt hr
+      have hins := insertImpl_fresh_eq acc w false (decide (k ∈ okl)) hes.1 hstep.1
+      obtain ⟨N2, c2⟩ := interpEs_settleO root st okl rest
+        ⟨acc.es ++ [(k, w)], if false = true then setInsert k acc.ck else acc.ck,
+          if decide (k ∈ okl) = true then setInsert k acc.ok else acc.ok⟩
+        (by simpa using hck) hes.2.2 (by simpa [keys] using hstep.2)
+      refine ⟨N1 + N2 + 1, fun n hn => ?_⟩
+      obtain ⟨m, rfl⟩ : ∃ m, n = m + 1 := ⟨n - 1, by omega⟩
+      have h2 := c2 m (by omega)
+      have hstepEq : interpEs (m + 1) root ((k, v) :: rest) [] okl st acc =
+          interpEs m root rest [] okl st
+            ⟨acc.es ++ [(k, w)], if false = true then setInsert k acc.ck else acc.ck,
+              if decide (k ∈ okl) = true then setInsert k acc.ok else acc.ok⟩ := by
+        rw [interpEs_cons, c1 m (by omega), hr]
+        simp only [lift, flat_plain hw, List.not_mem_nil, decide_false, hins]
+      rw [hstepEq]
+      simp only [absEs, resolveEs, hr]
+      cases hrr : resolveEs (absEs st.cur rest) with
+      | error e => rw [hrr] at h2; exact h2
+      | ok es'' =>
+        rw [hrr] at h2
+        obtain ⟨mm, e1, e2, e3⟩ := h2
+        exact ⟨mm, e1, by simp [e2], e3⟩
+
+/-- `Mapping::flattened` on plain entries (any flags) keeps the entries. -/
+theorem flatEs_plainEs (ck ok : List Key) (st : RState) : ∀ (es : List (Key × Value))
+    (acc : Mapping), PlainEs es → (keys acc.es ++ keys es).Nodup →
+    ∃ ck' ok', flatEs es ck ok st acc = .ok ⟨acc.es ++ es, ck', ok'⟩
+  | [], acc, _, _ => ⟨acc.ck, acc.ok, by simp [flatEs]⟩
+  | (k, v) :: rest, acc, h, hnd => by
+    simp only [PlainEs] at h
+    have hstep := nodup_keys_step (by simpa [keys] using hnd : (keys acc.es ++ k :: keys rest).Nodup)
+    obtain ⟨ck1, ok1, h1⟩ := insertImpl_fresh acc v (decide (k ∈ ck)) (decide (k ∈ ok)) h.1 hstep.1
+    obtain ⟨ck2, ok2, h2⟩ := flatEs_plainEs ck ok st rest ⟨acc.es ++ [(k, v)], ck1, ok1⟩ h.2.2
+      (by simpa [keys] using hstep.2)
+    refine ⟨ck2, ok2, ?_⟩
+    simp only [flatEs, flat_plain h.2.1, h1, h2]
+    simp
+
+/-- Rendering an accumulated parameter mapping with override flags: the entries. -/
+theorem renderParams_settlesO {es : List (Key × Value)} (okl : List Key) (hes : SemiEs es)
+    (hnd : (keys es).Nodup) :
+    ∃ N, ∀ n, N ≤ n →
+      (renderParamsF n ⟨es, [], okl⟩).map Mapping.es = resolveEs (absEs [] es) := by
+  obtain ⟨N, c⟩ := interpEs_settleO ⟨es, [], okl⟩ {} okl es {} rfl hes (by simpa using hnd)
+  refine ⟨N + 1, fun n hn => ?_⟩
+  obtain ⟨m, rfl⟩ : ∃ m, n = m + 1 := ⟨n - 1, by omega⟩
+  have hc := c m (by omega)
+  unfold renderParamsF renderedF
+  simp only [Mapping.toValue]
+  rw [interp_map]
+  cases hr : resolveEs (absEs [] es) with
+  | error e =>
+    rw [show ({} : RState).cur = [] from rfl, hr] at hc
+    simp only [EsOutcome] at hc
+    rw [hc]; rfl
+  | ok es' =>
+    rw [show ({} : RState).cur = [] from rfl, hr] at hc
+    obtain ⟨mm, e1, e2, e3⟩ := hc
+    rw [e1]
+    have e2' : mm.es = es' := by simpa using e2
+    have hp : PlainEs es' :=
+      (resolveEs_plain _ _ (absEs_ptree [] hes) hr).1
+    have hk : keys es' = keys es := by
+      rw [(resolveEs_plain _ _ (absEs_ptree [] hes) hr).2, tkeys_absEs]
+    obtain ⟨ck', ok', hf⟩ := flatEs_plainEs mm.ck mm.ok {} es' {} hp (by simpa [hk] using hnd)
+    simp only [Mapping.toValue, flat, e2', hf]
+    simp [Except.map]
+
+/-- **Refinement with top-level override keys, settled form.** -/
+theorem params_settleO {ms : List Mapping} (h : ∀ m ∈ ms, OverrideLayer m) :
+    ∃ N, ∀ n, N ≤ n →
+      ((mergeLayers {} ms).bind (renderParamsF n)).map Mapping.es =
+        deepParamsO (ms.map normLayer) := by
+  obtain ⟨es, okl, a, b, c, d⟩ := mergeLayers_simO [] ms [] [] h trivial (by simp)
+  have a' : mergeLayers {} ms = .ok ⟨es, [], okl⟩ := a
+  obtain ⟨N, cN⟩ := renderParams_settlesO okl b c
+  refine ⟨N, fun n hn => ?_⟩
+  rw [a']
+  show (renderParamsF n ⟨es, [], okl⟩).map Mapping.es = _
+  rw [cN n hn, d]
+  rfl
+
+/-! ### The stack of a key with overrides -/
+
+theorem tlookup_deepEsO (cur : List Str) (ok : List Key) (k : Key) : ∀ (es : List (Key × Value))
+    (ts : List (Key × Tree)), (keys es).Nodup →
+    tlookup k (deepEsO cur ok ts es) =
+      match lookup k es with
+      | none => tlookup k ts
+      | some v => some (if k ∈ ok then ofValue v
+                        else deep (cur ++ [k.display]) ((tlookup k ts).getD (.leaf .null)) v)
+  | [], ts, _ => rfl
+  | (k', v') :: rest, ts, hnd => by
+    simp only [keys, List.map_cons, List.nodup_cons] at hnd
+    simp only [deepEsO]
+    rw [tlookup_deepEsO cur ok k rest _ hnd.2]
+    by_cases h : k' = k
+    · subst h
+      have hl : lookup k' rest = none := lookup_none_iff.2 hnd.1
+      simp only [hl, lookup, if_true, tlookup_upsert_self]
+      cases tlookup k' ts with
+      | none => by_cases ho : k' ∈ ok <;> simp [ho, deep_leaf_null]
+      | some t => rfl
+    · have h' : k ≠ k' := fun e => h e.symm
+      simp only [lookup, h, if_false, tlookup_upsert_ne h']
+
+theorem tkeys_deepEsO (cur : List Str) (ok : List Key) : ∀ (es : List (Key × Value))
+    (ts : List (Key × Tree)), tkeys (deepEsO cur ok ts es) = (keys es).foldl addKey (tkeys ts)
+  | [], ts => rfl
+  | (k, v) :: rest, ts => by
+    simp only [deepEsO, keys, List.map_cons, List.foldl_cons]
+    rw [tkeys_deepEsO cur ok rest, tkeys_upsert, addKey_eq]
+
+theorem tlookup_foldl_deepEsO (cur : List Str) (k : Key) : ∀ (ms : List Mapping)
+    (ts : List (Key × Tree)) (acc : List Value), (∀ m ∈ ms, (keys m.es).Nodup) →
+    tlookup k ts = (if acc = [] then none else some (merged (cur ++ [k.display]) acc)) →
+    tlookup k (ms.foldl (fun ts m => deepEsO cur m.ok ts m.es) ts) =
+      (if ms.foldl (stackStep k) acc = [] then none
+       else some (merged (cur ++ [k.display]) (ms.foldl (stackStep k) acc)))
+  | [], ts, acc, _, h0 => h0
+  | m :: ms, ts, acc, h, h0 => by
+    simp only [List.foldl_cons]
+    apply tlookup_foldl_deepEsO cur k ms _ _ (fun m' hm' => h m' (List.mem_cons_of_mem _ hm'))
+    rw [tlookup_deepEsO cur m.ok k m.es ts (h m (by simp)), h0]
+    cases hlk : lookup k m.es with
+    | none => simp only [stackStep, hlk]
+    | some v =>
+      by_cases ho : k ∈ m.ok
+      · simp [stackStep, hlk, ho, merged, deep_leaf_null]
+      · by_cases ha : acc = []
+        · simp [stackStep, hlk, ho, ha, merged, deep_leaf_null]
+        · simp [stackStep, hlk, ho, ha, merged_snoc]
+
+/-- **An override restarts the stack.**  With override keys, the member `k` is the merge of the
+values written to `k` from the last layer on that wrote it as `~k`. -/
+theorem tlookup_mergedParamsO (k : Key) {ms : List Mapping} (h : ∀ m ∈ ms, (keys m.es).Nodup) :
+    tlookup k (mergedParamsO ms) =
+      if valuesAtO k ms = [] then none else some (merged [k.display] (valuesAtO k ms)) := by
+  exact tlookup_foldl_deepEsO [] k ms [] [] h rfl
+
+theorem tkeys_mergedParamsO (ms : List Mapping) : tkeys (mergedParamsO ms) = keyOrder ms := by
+  unfold mergedParamsO keyOrder
+  suffices h : ∀ (ms : List Mapping) (ts : List (Key × Tree)),
+      tkeys (ms.foldl (fun ts m => deepEsO [] m.ok ts m.es) ts) =
+        ms.foldl (fun ks m => (keys m.es).foldl addKey ks) (tkeys ts) from h ms []
+  intro ms
+  induction ms with
+  | nil => intro ts; rfl
+  | cons m ms ih => intro ts; simp only [List.foldl_cons]; rw [ih, tkeys_deepEsO]
+
+theorem addKey_nodup {ks : List Key} (k : Key) (h : ks.Nodup) : (addKey ks k).Nodup := by
+  unfold addKey
+  split
+  · exact h
+  · rename_i hk
+    rw [List.nodup_append]
+    refine ⟨h, by simp, ?_⟩
+    intro a ha b hb
+    simp at hb; subst hb
+    intro e; subst e; exact hk ha
+
+theorem keyOrder_nodup (ms : List Mapping) : (keyOrder ms).Nodup := by
+  unfold keyOrder
+  suffices h : ∀ (ms : List Mapping) (ks : List Key), ks.Nodup →
+      (ms.foldl (fun ks m => (keys m.es).foldl addKey ks) ks).Nodup from h ms [] (by simp)
+  intro ms
+  induction ms with
+  | nil => intro ks h; exact h
+  | cons m ms ih =>
+    intro ks h
+    simp only [List.foldl_cons]
+    apply ih
+    generalize keys m.es = l
+    induction l generalizing ks with
+    | nil => exact h
+    | cons k l ih2 => simp only [List.foldl_cons]; exact ih2 _ (addKey_nodup k h)
+
+/-- Member trees given by a stack function: the value, key by key. -/
+theorem resolveEs_by_key {ts : List (Key × Tree)} {stack : Key → List Value} {cur : List Str}
+    (hn : (tkeys ts).Nodup)
+    (hl : ∀ k, tlookup k ts =
+      if stack k = [] then none else some (merged (cur ++ [k.display]) (stack k))) :
+    (∀ es, resolveEs ts = .ok es →
+      keys es = tkeys ts ∧
+      ∀ k, (stack k = [] → lookup k es = none) ∧
+        (stack k ≠ [] →
+          ∃ r, deepAll (cur ++ [k.display]) (stack k) = .ok r ∧ lookup k es = some r)) ∧
+    (∀ e, resolveEs ts = .error e →
+      ∃ k, stack k ≠ [] ∧ deepAll (cur ++ [k.display]) (stack k) = .error e) ∧
+    ((∀ k, stack k ≠ [] → ∃ r, deepAll (cur ++ [k.display]) (stack k) = .ok r) →
+      ∃ es, resolveEs ts = .ok es) := by
+  have hmem : ∀ k t, (k, t) ∈ ts →
+      stack k ≠ [] ∧ t = merged (cur ++ [k.display]) (stack k) := by
+    intro k t hm
+    have := tlookup_of_mem_nodup hn hm
+    rw [hl k] at this
+    by_cases hv : stack k = []
+    · simp [hv] at this
+    · simp only [hv, if_false, Option.some.injEq] at this
+      exact ⟨hv, this.symm⟩
+  refine ⟨?_, ?_, ?_⟩
+  · intro es h1
+    refine ⟨resolveEs_keys h1, fun k => ?_⟩
+    have hlk := resolveEs_lookup k h1
+    rw [hl k] at hlk
+    constructor
+    · intro hv; simpa [hv] using hlk
+    · intro hv
+      simp only [hv, if_false] at hlk
+      have hm : (k, merged (cur ++ [k.display]) (stack k)) ∈ ts := by
+        apply tlookup_mem; rw [hl k]; simp [hv]
+      obtain ⟨r, hr⟩ := (resolveEs_ok_iff.1 ⟨es, h1⟩) k _ hm
+      exact ⟨r, hr, by simpa [hr] using hlk⟩
+  · intro e h1
+    obtain ⟨k, t, hm, hr⟩ := resolveEs_error_mem h1
+    obtain ⟨hv, rfl⟩ := hmem k t hm
+    exact ⟨k, hv, hr⟩
+  · intro hall
+    apply resolveEs_ok_iff.2
+    intro k t hm
+    obtain ⟨hv, rfl⟩ := hmem k t hm
+    exact hall k hv
+
+theorem stackStep_norm (k : Key) (acc : List Value) (m : Mapping) :
+    stackStep k (normL acc) (normLayer m) = normL (stackStep k acc m) := by
+  simp only [stackStep, normLayer, lookup_normEs]
+  cases lookup k m.es with
+  | none => rfl
+  | some v =>
+    by_cases ho : k ∈ m.ok
+    · simp [ho, normL]
+    · simp [ho, normL_append, normL]
+
+theorem valuesAtO_norm (k : Key) (ms : List Mapping) :
+    valuesAtO k (ms.map normLayer) = normL (valuesAtO k ms) := by
+  unfold valuesAtO
+  suffices h : ∀ (ms : List Mapping) (acc : List Value),
+      (ms.map normLayer).foldl (stackStep k) (normL acc) = normL (ms.foldl (stackStep k) acc) from
+    h ms []
+  intro ms
+  induction ms with
+  | nil => intro acc; rfl
+  | cons m ms ih =>
+    intro acc
+    simp only [List.map_cons, List.foldl_cons, stackStep_norm]
+    exact ih _
+
+theorem normL_eq_nil {l : List Value} : normL l = [] ↔ l = [] := by
+  cases l <;> simp [normL]
 
 end DeepMerge
 end Reclass
